@@ -20,6 +20,9 @@ Section Run.
     destruct (step e st); try reflexivity. apply IH.
   Qed.
 
+  Lemma run_one e st : run [e] st = step e st.
+  Proof. cbn [J2P.run]. destruct (step e st); reflexivity. Qed.
+
   Lemma run_cons e r st : run (e :: r) st = match step e st with MOk st' => run r st' | x => x end.
   Proof. reflexivity. Qed.
 
@@ -124,15 +127,31 @@ Proof.
   repeat split; auto.
 Qed.
 
+
+(* the outcome demanded of a run by a three-valued denotation *)
+Definition result {A} (r : res A) (got : mres) (post : A -> mres) : Prop :=
+  match r with ROk x => got = post x | RErr => got = MErr | RUndef => True end.
+
+Lemma leaf_err_payload k v e : denote_leaf k v = RErr -> ev_of v = Some e -> scalar_payload k e = SErr.
+Proof.
+  intros Hd He. destruct v; cbn in He; inversion He; subst e; clear He;
+    unfold denote_leaf, is_int_kind in Hd; unfold scalar_payload, is_int_kind;
+    repeat match goal with
+           | H : context [?a =? ?b] |- _ => destruct (Z.eqb_spec a b); [subst; cbn in *; try discriminate; try reflexivity|]
+           | |- context [?a =? ?b] => destruct (Z.eqb_spec a b); [subst; cbn in *; try discriminate; try reflexivity|]
+           end; cbn in *; try discriminate; try reflexivity.
+  all: repeat match goal with H : context [match ?x with _ => _ end] |- _ => destruct x; try discriminate end.
+Qed.
+
+Lemma msg_kind_payload e : (match e with EvNum _ | EvStr _ | EvBool _ => True | _ => False end) -> scalar_payload K_MESSAGE e = SErr.
+Proof. destruct e; try contradiction; reflexivity. Qed.
+
 (* ------------------------------------------------------------------ the refinement *)
 Section Refine.
   Variable disallow : bool.
   Variable S : schema.
   Variable junk : list Z.
   Hypothesis Hjunk : (9 <= length junk)%nat.
-  (* stack frames per JSON nesting level: 1 without map fields, 2 with (map frame + pair frame) *)
-  Variable dw : nat.
-  Hypothesis Hdw : (1 <= dw)%nat.
   Notation run := (J2P.run disallow S junk).
 
   Definition num_ok (n : Z) : Prop := ((1 <=? n) && (n <=? MAX_FIELD_NUMBER)) = true.
@@ -146,294 +165,276 @@ Section Refine.
     rewrite E1, E2. reflexivity.
   Qed.
 
-  (* OnBool/OnString/OnInt64/OnFloat64 in a consistent state: member value (globalFieldDesc set) or list element *)
-  Lemma on_scalar_eval e top stk glob buf g p tagbytes :
-    (glob = Some g \/ (glob = None /\ fr_typ top = T_ARR /\ fr_fd top = Some g /\ g_islist g = Some true)) ->
-    (if is_str_ev e then append_tag buf (g_num g) (kwire (g_kind g)) = Some (buf ++ tagbytes)
-     else match g_islist g with
-          | Some true => tagbytes = []
-          | Some false => append_tag buf (g_num g) (kwire (g_kind g)) = Some (buf ++ tagbytes)
-          | None => False
-          end) ->
-    scalar_payload (g_kind g) e = SBytes p ->
-    fr_typ top <> T_MAP ->
+  Lemma step_scalar e st : m_skipd st = O ->
+    (match e with EvNum _ | EvStr _ | EvBool _ => True | _ => False end) ->
+    step disallow S junk e st = on_scalar junk e st.
+  Proof. intros Hs He. unfold step. rewrite Hs. destruct e; try contradiction; reflexivity. Qed.
+
+  (* where a value sits: the value of a member / map pair (globalFieldDesc = its field) or an element of an array (the
+     frame on top carries the repeated field) *)
+  Inductive vctx (g : gdesc) (top : frame) (glob : option gdesc) : Prop :=
+  | CtxMember : glob = Some g -> g_islist g = Some false -> g_ismap g = Some false -> vctx g top glob
+  | CtxElem : glob = None -> fr_typ top = T_ARR -> fr_fd top = Some g -> g_islist g = Some true -> g_ismap g = Some false -> vctx g top glob.
+
+  (* what happens when a value is complete: a map pair is closed (length finished, pair frame popped), otherwise nothing *)
+  Definition close (top : frame) (stk : list frame) (b : list Z) : mres :=
+    if fr_typ top =? T_MAP
+    then match finish junk b (fr_pos top) with None => MPanic | Some b' => MOk (mk_st stk None false O b') end
+    else MOk (mk_st (top :: stk) None false O b).
+
+  Lemma ove_some g top stk b : on_value_end junk (mk_st (top :: stk) (Some g) false O b) = close top stk b.
+  Proof.
+    unfold on_value_end, close. cbn [m_stk m_glob m_buf]. destruct (fr_typ top =? T_MAP); [|reflexivity].
+    destruct (finish junk b (fr_pos top)); reflexivity.
+  Qed.
+
+  Lemma ove_obj fr top stk b : fr_typ fr = T_OBJ ->
+    on_value_end junk (mk_st (fr :: top :: stk) None false O b) = close top stk b.
+  Proof.
+    intro H. unfold on_value_end, close. cbn [m_stk m_glob m_buf]. rewrite H. cbn [Z.eqb T_OBJ Pos.eqb].
+    destruct (fr_typ top =? T_MAP); [|reflexivity]. destruct (finish junk b (fr_pos top)); reflexivity.
+  Qed.
+
+  Lemma close_elem top stk b : fr_typ top = T_ARR -> close top stk b = MOk (mk_st (top :: stk) None false O b).
+  Proof. intro H. unfold close. rewrite H. reflexivity. Qed.
+
+  Lemma vctx_not_zero g top glob : vctx g top glob -> g <> GZero.
+  Proof. intros [? H _|_ _ _ H _] E; subst g; discriminate. Qed.
+
+  Definition packed_of (g : gdesc) : bool := match g_ispacked g with Some b => b | None => false end.
+  Definition tag_of (g : gdesc) (e : ev) : list Z :=
+    if is_str_ev e || negb (packed_of g) then varint_enc (g_num g * 8 + kwire (g_kind g)) else [].
+
+  (* OnBool / OnString / OnInt64 / OnFloat64 on a consistent state *)
+  Lemma on_scalar_eval e g top stk glob buf :
+    vctx g top glob -> num_ok (g_num g) ->
     on_scalar junk e (mk_st (top :: stk) glob false O buf)
-    = MOk (mk_st (top :: stk) None false O (buf ++ tagbytes ++ p)).
+    = match scalar_payload (g_kind g) e with
+      | SErr => MErr
+      | SUnmod => MUnmod
+      | SBytes p => close top stk (buf ++ tag_of g e ++ p)
+      end.
   Proof.
-    intros Hres Htag Hpay Htop.
-    assert (Hm : (fr_typ top =? T_MAP) = false) by (apply Z.eqb_neq; exact Htop).
+    intros Hc Hn. pose proof (vctx_not_zero _ _ _ Hc) as Hz.
     unfold on_scalar. cbn [m_inskip m_glob m_stk m_buf top_of hd].
-    destruct Hres as [Hg | (Hg & Ht & Hf & Hl)]; subst glob.
-    - destruct (is_str_ev e); [|destruct (g_islist g) as [[|]|]].
-      + rewrite Htag. cbn [set_buf m_buf m_stk m_glob m_inskip m_skipd]. rewrite Hpay.
-        unfold on_value_end. cbn [set_buf m_buf m_stk m_glob m_inskip m_skipd]. rewrite Hm.
-        unfold set_glob. cbn. rewrite <- app_assoc. reflexivity.
-      + subst tagbytes. cbn [set_buf m_buf m_stk m_glob m_inskip m_skipd]. rewrite Hpay.
-        unfold on_value_end. cbn [set_buf m_buf m_stk m_glob m_inskip m_skipd]. rewrite Hm.
-        unfold set_glob. cbn. reflexivity.
-      + rewrite Htag. cbn [set_buf m_buf m_stk m_glob m_inskip m_skipd]. rewrite Hpay.
-        unfold on_value_end. cbn [set_buf m_buf m_stk m_glob m_inskip m_skipd]. rewrite Hm.
-        unfold set_glob. cbn. rewrite <- app_assoc. reflexivity.
-      + contradiction.
-    - rewrite Hf, Hl, Ht. cbn [Z.eqb T_ARR Pos.eqb].
-      destruct (is_str_ev e).
-      + rewrite Htag. cbn [set_buf m_buf m_stk m_glob m_inskip m_skipd]. rewrite Hpay.
-        unfold set_buf. cbn. rewrite <- app_assoc. reflexivity.
-      + rewrite Hl in Htag. subst tagbytes. rewrite Hl, Hpay. unfold set_buf. cbn. reflexivity.
+    destruct Hc as [Hg Hl Hm | Hg Ht Hf Hl Hm]; subst glob.
+    - unfold check_scalar_field. cbn [m_glob]. destruct g; [congruence| |]; rewrite Hl, Hm; cbn [orb negb];
+        unfold tag_of, packed_of.
+      all: match goal with |- context [is_str_ev ?x || negb ?b] => destruct (is_str_ev x || negb b) end;
+        try rewrite (append_tag_ok _ _ _ Hn); cbn [set_buf m_buf m_stk m_glob m_inskip m_skipd];
+        match goal with |- context [scalar_payload ?k ?x] => destruct (scalar_payload k x) end; try reflexivity;
+        unfold set_buf; cbn [m_buf m_stk m_glob m_inskip m_skipd]; rewrite ove_some, <- ?app_assoc; reflexivity.
+    - assert (Hfd : (if is_str_ev e
+                     then match fr_fd top with Some t => match g_islist t with Some true => Some t | _ => None end | None => None end
+                     else if fr_typ top =? T_ARR then fr_fd top else None) = Some g).
+      { rewrite Hf, Hl, Ht. destruct (is_str_ev e); reflexivity. }
+      rewrite Hfd. unfold check_scalar_field. cbn [m_glob]. destruct g; [congruence| |]; cbn [negb];
+        unfold tag_of, packed_of.
+      all: match goal with |- context [is_str_ev ?x || negb ?b] => destruct (is_str_ev x || negb b) end;
+        try rewrite (append_tag_ok _ _ _ Hn); cbn [set_buf m_buf m_stk m_glob m_inskip m_skipd];
+        match goal with |- context [scalar_payload ?k ?x] => destruct (scalar_payload k x) end; try reflexivity;
+        unfold set_buf; cbn [m_buf m_stk m_glob m_inskip m_skipd]; rewrite (close_elem _ _ _ Ht), <- ?app_assoc; reflexivity.
   Qed.
 
-  Definition md_ok (md : mdesc) : Prop :=
-    forallb (fun fd => match fd_label fd with LMap _ => false | _ => true end) (md_fields md) = true.
-  Hypothesis Hmapdw : (forall name md, find_msg S name = Some md -> md_ok md) \/ (2 <= dw)%nat.
-  Lemma md_ok_or name md : find_msg S name = Some md -> md_ok md \/ (2 <= dw)%nat.
-  Proof. intro H. destruct Hmapdw as [Hn|Hn]; [left; exact (Hn _ _ H) | right; exact Hn]. Qed.
-
-  Lemma field_not_map md k fd : md_ok md -> find_field_name md k = Some fd ->
-    g_ismap (GField fd) = Some false.
+  (* an array where no repeated field is expected *)
+  Lemma arr_rejected g top stk glob buf xs :
+    vctx g top glob -> run (events (JArr xs)) (mk_st (top :: stk) glob false O buf) = MErr.
   Proof.
-    unfold md_ok, find_field_name. intros Hm Hf. apply find_some in Hf. destruct Hf as [Hin _].
-    rewrite forallb_forall in Hm. specialize (Hm _ Hin). cbn [g_ismap]. destruct (fd_label fd); try discriminate; reflexivity.
+    intros Hc. cbn [events]. rewrite run_cons. unfold step. cbn [m_skipd]. unfold on_arr_begin. cbn [m_inskip m_glob].
+    destruct Hc as [Hg Hl Hm | Hg Ht Hf Hl Hm]; subst glob; [rewrite Hl|]; reflexivity.
   Qed.
+
+  (* an object where a scalar is expected *)
+  Lemma obj_rejected g top stk glob buf ms :
+    vctx g top glob -> (g_kind g =? K_MESSAGE) = false ->
+    run (events (JObj ms)) (mk_st (top :: stk) glob false O buf) = MErr.
+  Proof.
+    intros Hc Hk. cbn [events]. rewrite run_cons. unfold step. cbn [m_skipd]. unfold on_obj_begin.
+    cbn [m_inskip m_glob top_of m_stk hd].
+    destruct Hc as [Hg Hl Hm | Hg Ht Hf Hl Hm]; subst glob; [|rewrite Ht, Hf; cbn [Z.eqb T_ARR Pos.eqb]];
+      rewrite Hm, Hl, Hk; reflexivity.
+  Qed.
+
+  Definition g_type (g : gdesc) : option ftype :=
+    match g with GZero => None | GField fd | GMapVal fd => Some (fd_type fd) end.
+
+  Lemma g_kind_type g t : g_type g = Some t -> g_ismap g = Some false -> g_kind g = kind_of_type t.
+  Proof.
+    destruct g as [|fd|fd]; cbn; intros Ht Hm; inversion Ht; subst; try reflexivity.
+    destruct (fd_label fd); try reflexivity; discriminate.
+  Qed.
+
+  Lemma g_message_type g t : g_type g = Some t ->
+    g_message S g = Some (match t with TMsg name => find_msg S name | TScalar _ => None end).
+  Proof. destruct g; cbn; intro Ht; inversion Ht; reflexivity. Qed.
 
   (* the top frame is the frame of a message object of type md *)
   Definition obj_frame (top : frame) (md : mdesc) : Prop :=
     fr_typ top = T_OBJ /\
     (fr_root top = Some md \/ (fr_root top = None /\ exists g, fr_fd top = Some g /\ g_message S g = Some (Some md))).
 
-  Definition DEPTH : nat := 256.
+  Definition vbytes (pk : bool) (n : Z) (v : pval) : list Z := if pk then packed_elem v else wenc (wfld n v).
 
-  Definition members_spec (rec : mdesc -> list (list Z * json) -> res pmsg) : Prop :=
-    forall md ms fs top stk glob buf,
-      rec md ms = ROk fs -> (md_ok md \/ (2 <= dw)%nat) -> obj_frame top md ->
-      Forall (fun m => (length (top :: stk) + dw * json_depth (snd m) <= DEPTH)%nat) ms ->
-      run (flat_map member_events ms) (mk_st (top :: stk) glob false O buf)
-      = MOk (mk_st (top :: stk) (if has_known md ms then None else glob) false O (buf ++ encode_msg fs)).
+  Definition members_spec (rec : mdesc -> list (list Z * json) -> res pmsg) (recn : mdesc -> list (list Z * json) -> nat) : Prop :=
+    forall md ms top stk buf,
+      obj_frame top md -> (length (top :: stk) + recn md ms <= STK_DEPTH)%nat ->
+      result (rec md ms) (run (flat_map member_events ms) (mk_st (top :: stk) None false O buf))
+             (fun fs => MOk (mk_st (top :: stk) None false O (buf ++ encode_msg fs))).
 
-  Lemma depth_children {A} (f : A -> json) (l : list A) (L extra : nat) :
-    (extra <= dw)%nat ->
-    (L + dw * Datatypes.S (fold_right (fun x m => Nat.max (json_depth (f x)) m) O l) <= DEPTH)%nat ->
-    Forall (fun x => (extra + L + dw * json_depth (f x) <= DEPTH)%nat) l.
-  Proof.
-    intros He H. apply Forall_forall. intros x Hin.
-    pose proof (fold_max_ge (fun y => json_depth (f y)) l x Hin) as Hm. cbn beta in Hm.
-    rewrite Nat.mul_succ_r in H.
-    pose proof (Nat.mul_le_mono_l _ _ dw Hm). lia.
-  Qed.
+  Lemma push_ok st fr : (length (m_stk st) < STK_DEPTH)%nat -> push st fr = MOk (set_stk st (fr :: m_stk st)).
+  Proof. intro H. unfold push. apply Nat.leb_gt in H. rewrite H. reflexivity. Qed.
 
-  Lemma depth_push (L k : nat) : (L + dw * Datatypes.S k <= DEPTH)%nat -> (STK_DEPTH <=? L)%nat = false.
-  Proof. intro H. apply Nat.leb_gt. unfold STK_DEPTH. unfold DEPTH in H. rewrite Nat.mul_succ_r in H. lia. Qed.
+  Lemma num_ok_1 : num_ok 1.  Proof. reflexivity. Qed.
+  Lemma num_ok_2 : num_ok 2.  Proof. reflexivity. Qed.
 
   Section Level.
     Variable rec : mdesc -> list (list Z * json) -> res pmsg.
-    Hypothesis Hrec : members_spec rec.
+    Variable recn : mdesc -> list (list Z * json) -> nat.
+    Hypothesis Hrec : members_spec rec recn.
 
-    (* a nested message: tag, speculative length byte, members, FinishSpeculativeLength, pop *)
-    Lemma msg_value_ok fd name md' ms' fs' top stk glob buf :
-      fd_type fd = TMsg name -> g_ismap (GField fd) = Some false -> find_msg S name = Some md' ->
-      has_known md' ms' = true -> rec md' ms' = ROk fs' -> (plen (encode_msg fs') <? 2 ^ 31) = true ->
-      num_ok (fd_num fd) ->
-      (glob = Some (GField fd) \/ (glob = None /\ fr_typ top = T_ARR /\ fr_fd top = Some (GField fd))) ->
-      fr_typ top <> T_MAP ->
-      (length (top :: stk) + dw * json_depth (JObj ms') <= DEPTH)%nat ->
-      run (events (JObj ms')) (mk_st (top :: stk) glob false O buf)
-      = MOk (mk_st (top :: stk) None false O (buf ++ wenc (wfld (fd_num fd) (VMsg fs')))).
+    (* one value of type t in a consistent context: the specified bytes and the close of the context, or an error *)
+    Lemma single_ok g t x top stk glob buf :
+      vctx g top glob -> g_type g = Some t -> num_ok (g_num g) ->
+      (packed_of g = true -> type_numeric t = true) ->
+      (length (top :: stk) + need_single S recn t x <= STK_DEPTH)%nat ->
+      result (den_single true S rec t x) (run (events x) (mk_st (top :: stk) glob false O buf))
+             (fun v => close top stk (buf ++ vbytes (packed_of g) (g_num g) v)).
     Proof.
-      intros Ht Hmap Hfm Hk Hr Hsz Hn Hres Htop Hd.
-      assert (Hm : (fr_typ top =? T_MAP) = false) by (apply Z.eqb_neq; exact Htop).
-      cbn [events]. rewrite run_cons.
-      assert (Hstep : step disallow S junk EvObjBegin (mk_st (top :: stk) glob false O buf)
-                = MOk (mk_st (mk_frame T_OBJ None (Some (GField fd)) (plen (buf ++ varint_enc (fd_num fd * 8 + 2))) :: top :: stk)
-                             glob false O ((buf ++ varint_enc (fd_num fd * 8 + 2)) ++ [0]))).
-      { unfold step. cbn [m_skipd]. unfold on_obj_begin. cbn [m_inskip m_glob m_stk m_buf top_of hd].
-        assert (Hfd : match glob with Some g => Some g | None => if fr_typ top =? T_ARR then fr_fd top else None end = Some (GField fd)).
-        { destruct Hres as [Hg | (Hg & Ha & Hf)]; subst glob; [reflexivity|]. rewrite Ha, Hf. reflexivity. }
-        rewrite Hfd, Hmap. cbn [g_num]. rewrite (append_tag_ok _ _ _ Hn).
-        unfold push. cbn [set_buf m_stk m_buf m_glob m_inskip m_skipd].
-        assert (Hl : (STK_DEPTH <=? length (top :: stk))%nat = false).
-        { cbn [json_depth] in Hd. exact (depth_push _ _ Hd). }
-        rewrite Hl. reflexivity. }
-      rewrite Hstep. clear Hstep. rewrite run_app.
-      set (tag := varint_enc (fd_num fd * 8 + 2)).
-      set (fr := mk_frame T_OBJ None (Some (GField fd)) (plen (buf ++ tag))).
-      assert (Hof : obj_frame fr md').
-      { split; [reflexivity|]. right. split; [reflexivity|]. exists (GField fd). split; [reflexivity|].
-        cbn [g_message]. rewrite Ht, Hfm. reflexivity. }
-      assert (Hdep : Forall (fun m => (length (fr :: top :: stk) + dw * json_depth (snd m) <= DEPTH)%nat) ms').
-      { cbn [json_depth] in Hd. apply (depth_children (fun m : list Z * json => snd m) ms' (length (top :: stk)) 1 Hdw). exact Hd. }
-      change (flat_map (fun m : list Z * json => EvKey (fst m) :: events (snd m)) ms') with (flat_map member_events ms').
-      rewrite (Hrec md' ms' fs' fr (top :: stk) glob _ Hr (md_ok_or _ _ Hfm) Hof Hdep).
-      rewrite Hk. cbn [J2P.run]. unfold step. cbn [m_skipd]. unfold on_obj_end.
-      cbn [m_inskip top_of m_stk hd]. unfold fr at 1. cbn [fr_pos]. rewrite plen_not_m1.
-      cbn [m_buf]. unfold fr at 1. cbn [fr_pos].
-      rewrite <- (app_assoc (buf ++ tag) [0] (encode_msg fs')).
-      rewrite (finish_ok junk (buf ++ tag) 0 (encode_msg fs') Hjunk Hsz).
-      unfold on_value_end. cbn [set_buf m_stk m_glob m_buf m_inskip m_skipd].
-      unfold fr at 1. cbn [fr_typ]. cbn [Z.eqb T_OBJ Pos.eqb]. rewrite Hm.
-      unfold set_stk. cbn [m_stk m_glob m_buf m_inskip m_skipd].
-      cbn [wfld]. rewrite wenc_single. cbn [wt_of_wval wenc_val]. unfold encode_msg, msg_wire, tag.
-      rewrite <- !app_assoc. reflexivity.
+      intros Hc Ht Hn Hpk Hdep.
+      assert (Hm : g_ismap g = Some false) by (destruct Hc; assumption).
+      pose proof (g_kind_type g t Ht Hm) as Hkind.
+      destruct t as [k|name]; unfold den_single; cbn [andb kind_of_type] in *.
+      - (* scalar type *)
+        destruct (k =? K_MESSAGE) eqn:Hk11; [exact I|].
+        unfold denote_scalar. destruct (ev_of x) as [e|] eqn:He.
+        + destruct (ev_of_events _ _ He) as [Hev Hsc]. rewrite Hev, run_one.
+          rewrite step_scalar by (auto; reflexivity). rewrite (on_scalar_eval e g top stk glob buf Hc Hn), Hkind.
+          destruct (denote_leaf k x) as [l| |] eqn:Hl; cbn [res_bind].
+          * destruct (leaf_agrees true k e l) eqn:Ha; [|exact I]. cbn [result].
+            unfold leaf_agrees in Ha. cbn [negb orb] in Ha.
+            apply andb_true_iff in Ha. destruct Ha as [Ha H4].
+            apply andb_true_iff in Ha. destruct Ha as [Ha H3]. apply andb_true_iff in Ha. destruct Ha as [H1 H2].
+            destruct (scalar_payload k e) as [b| |]; try discriminate.
+            apply bytes_eqb_eq in H1. subst b. apply Z.eqb_eq in H2. apply Bool.eqb_prop in H3. apply Bool.eqb_prop in H4.
+            f_equal. f_equal. unfold tag_of, vbytes. rewrite Hkind.
+            destruct (packed_of g) eqn:Hp.
+            -- specialize (Hpk eq_refl). cbn [type_numeric] in Hpk. rewrite Hpk in H4. destruct l; [|discriminate].
+               rewrite H3. cbn [orb negb leaf_pval packed_elem leaf_bytes app]. reflexivity.
+            -- rewrite orb_true_r. rewrite wenc_leaf, H2. reflexivity.
+          * cbn [result]. rewrite (leaf_err_payload _ _ _ Hl He). reflexivity.
+          * exact I.
+        + destruct x; try discriminate He.
+          * exact I.
+          * cbn [result]. apply (arr_rejected g top stk glob buf xs Hc).
+          * cbn [result]. apply (obj_rejected g top stk glob buf ms Hc). rewrite Hkind. exact Hk11.
+      - (* message type *)
+        assert (Hk : g_kind g = K_MESSAGE) by exact Hkind.
+        assert (Hscal : forall e, (match e with EvNum _ | EvStr _ | EvBool _ => True | _ => False end) ->
+                  run [e] (mk_st (top :: stk) glob false O buf) = MErr).
+        { intros e He. rewrite run_one, step_scalar by (auto; reflexivity).
+          rewrite (on_scalar_eval e g top stk glob buf Hc Hn), Hk, (msg_kind_payload e He). reflexivity. }
+        destruct x as [| b | l | s0 | xs | ms].
+        + exact I.
+        + cbn [result events]. apply Hscal. exact I.
+        + cbn [result events]. apply Hscal. exact I.
+        + cbn [result events]. apply Hscal. exact I.
+        + cbn [result]. apply (arr_rejected g top stk glob buf xs Hc).
+        + destruct (find_msg S name) as [md'|] eqn:Hfm; [|exact I].
+          cbn [need_single] in Hdep. rewrite Hfm in Hdep.
+          set (tag := varint_enc (g_num g * 8 + 2)).
+          set (fr := mk_frame T_OBJ None (Some g) (plen (buf ++ tag))).
+          cbn [events]. rewrite run_cons.
+          assert (Hstep : step disallow S junk EvObjBegin (mk_st (top :: stk) glob false O buf)
+                    = MOk (mk_st (fr :: top :: stk) None false O ((buf ++ tag) ++ [0]))).
+          { unfold step. cbn [m_skipd]. unfold on_obj_begin. cbn [m_inskip m_glob m_stk m_buf top_of hd].
+            assert (Hfd : match glob with Some g0 => Some g0 | None => if fr_typ top =? T_ARR then fr_fd top else None end = Some g)
+              by (destruct Hc as [Hg _ _|Hg Ha Hf _ _]; subst glob; [reflexivity | rewrite Ha, Hf; reflexivity]).
+            rewrite Hfd, Hm.
+            assert (Hl : exists b, g_islist g = Some b /\ (match glob with Some _ => b | None => false end) = false)
+              by (destruct Hc as [Hg Hl _|Hg _ _ Hl _]; subst glob; [exists false | exists true]; auto).
+            destruct Hl as (bl & Hl & Hg2). rewrite Hl, Hk, Hg2. cbn [Z.eqb K_MESSAGE Pos.eqb negb orb].
+            rewrite (append_tag_ok _ _ _ Hn). rewrite push_ok by (cbn [set_buf m_stk]; unfold STK_DEPTH in *; lia).
+            reflexivity. }
+          rewrite Hstep. clear Hstep. rewrite run_app.
+          change (flat_map (fun m : list Z * json => EvKey (fst m) :: events (snd m)) ms) with (flat_map member_events ms).
+          assert (Hof : obj_frame fr md').
+          { split; [reflexivity|]. right. split; [reflexivity|]. exists g. split; [reflexivity|].
+            rewrite (g_message_type g _ Ht), Hfm. reflexivity. }
+          assert (Hd2 : (length (fr :: top :: stk) + recn md' ms <= STK_DEPTH)%nat) by (cbn [length] in *; lia).
+          pose proof (Hrec md' ms fr (top :: stk) ((buf ++ tag) ++ [0]) Hof Hd2) as Hmem.
+          destruct (rec md' ms) as [fs| |]; cbn [res_bind result] in *.
+          * destruct (plen (encode_msg fs) <? 2 ^ 31) eqn:Hsz; cbn [andb negb]; [|exact I]. cbn [result].
+            rewrite Hmem, run_one. unfold step. cbn [m_skipd]. unfold on_obj_end.
+            cbn [m_inskip top_of m_stk hd]. unfold fr at 1. cbn [fr_pos]. rewrite plen_not_m1.
+            cbn [m_buf]. unfold fr at 1. cbn [fr_pos].
+            rewrite <- (app_assoc (buf ++ tag) [0] (encode_msg fs)).
+            rewrite (finish_ok junk (buf ++ tag) 0 (encode_msg fs) Hjunk Hsz).
+            unfold set_buf. cbn [m_stk m_glob m_buf m_inskip m_skipd]. rewrite (ove_obj fr top stk _ eq_refl).
+            f_equal. unfold vbytes.
+            assert (Hp : packed_of g = false).
+            { destruct (packed_of g) eqn:Hp; [|reflexivity]. specialize (Hpk eq_refl). discriminate. }
+            rewrite Hp. cbn [wfld]. rewrite wenc_single. cbn [wt_of_wval wenc_val]. unfold encode_msg, msg_wire, tag.
+            rewrite <- !app_assoc. reflexivity.
+          * rewrite Hmem. reflexivity.
+          * exact I.
     Qed.
 
-    Lemma step_scalar e st : m_skipd st = O ->
-      (match e with EvNum _ | EvStr _ | EvBool _ => True | _ => False end) ->
-      step disallow S junk e st = on_scalar junk e st.
-    Proof. intros Hs He. unfold step. rewrite Hs. destruct e; try contradiction; reflexivity. Qed.
-
-    (* a singular scalar member: tag by kind, payload, onValueEnd clears globalFieldDesc *)
-    Lemma scalar_member_ok fd k v pv top stk buf :
-      fd_type fd = TScalar k -> fd_label fd = LSingular -> num_ok (fd_num fd) ->
-      denote_scalar true k v = ROk pv -> fr_typ top <> T_MAP ->
-      run (events v) (mk_st (top :: stk) (Some (GField fd)) false O buf)
-      = MOk (mk_st (top :: stk) None false O (buf ++ wenc (wfld (fd_num fd) pv))).
+    (* the elements of an array value of a repeated field *)
+    Lemma elems_ok g t top stk :
+      fr_typ top = T_ARR -> fr_fd top = Some g -> g_islist g = Some true -> g_ismap g = Some false ->
+      g_type g = Some t -> num_ok (g_num g) -> (packed_of g = true -> type_numeric t = true) ->
+      forall xs buf,
+        (length (top :: stk) + fold_right (fun x m => Nat.max (need_single S recn t x) m) O xs <= STK_DEPTH)%nat ->
+        result (den_elems true S rec t xs) (run (flat_map events xs) (mk_st (top :: stk) None false O buf))
+               (fun vs => MOk (mk_st (top :: stk) None false O (buf ++ flat_map (vbytes (packed_of g) (g_num g)) vs))).
     Proof.
-      intros Ht Hl Hn Hd Htop.
-      destruct (denote_scalar_inv _ _ _ Hd) as (e & l & Hev & Hsc & Hpv & Hpay & Hwt & Hstr & Hnum).
-      rewrite Hev. cbn [J2P.run]. rewrite step_scalar by (auto; reflexivity).
-      assert (Hk : g_kind (GField fd) = k) by (cbn [g_kind]; rewrite Hl, Ht; reflexivity).
-      rewrite (on_scalar_eval e top stk (Some (GField fd)) buf (GField fd) (leaf_bytes k l) (varint_enc (fd_num fd * 8 + kwire k))).
-      - subst pv. rewrite wenc_leaf, Hwt. reflexivity.
-      - left; reflexivity.
-      - rewrite Hk. cbn [g_islist g_num]. rewrite Hl. destruct (is_str_ev e); apply append_tag_ok; exact Hn.
-      - rewrite Hk. exact Hpay.
-      - exact Htop.
+      intros Hta Htf Hl Hm Ht Hn Hpk.
+      assert (Hc : vctx g top None) by (apply CtxElem; auto).
+      induction xs as [|x xs IH]; intros buf Hdep.
+      - cbn. rewrite app_nil_r. reflexivity.
+      - cbn [den_elems flat_map fold_right] in *. rewrite run_app.
+        assert (Hd1 : (length (top :: stk) + need_single S recn t x <= STK_DEPTH)%nat) by lia.
+        pose proof (single_ok g t x top stk None buf Hc Ht Hn Hpk Hd1) as Hx.
+        destruct (den_single true S rec t x) as [v| |]; cbn [res_bind result] in *; [|rewrite Hx; reflexivity|exact I].
+        rewrite Hx, (close_elem _ _ _ Hta).
+        assert (Hd2 : (length (top :: stk) + fold_right (fun x m => Nat.max (need_single S recn t x) m) O xs <= STK_DEPTH)%nat) by lia.
+        specialize (IH (buf ++ vbytes (packed_of g) (g_num g) v) Hd2).
+        destruct (den_elems true S rec t xs) as [vs| |]; cbn [res_bind result] in *; [|exact IH|exact I].
+        rewrite IH. cbn [flat_map]. rewrite <- app_assoc. reflexivity.
     Qed.
 
-    Definition elems_bytes (n : Z) (t : ftype) (vs : list pval) : list Z :=
-      if type_numeric t then flat_map packed_elem vs else wenc (flat_map (fun x => wfld n x) vs).
-
-    (* the elements of an array value of a repeated field (the first one still sees globalFieldDesc) *)
-    Lemma elems_ok fd p top stk :
-      fd_label fd = LRepeated p -> num_ok (fd_num fd) ->
-      fr_typ top = T_ARR -> fr_fd top = Some (GField fd) ->
-      forall xs vs glob buf,
-        den_elems true S rec (fd_type fd) xs = ROk vs ->
-        (glob = Some (GField fd) \/ glob = None) ->
-        Forall (fun x => (length (top :: stk) + dw * json_depth x <= DEPTH)%nat) xs ->
-        run (flat_map events xs) (mk_st (top :: stk) glob false O buf)
-        = MOk (mk_st (top :: stk) (match xs with [] => glob | _ => None end) false O (buf ++ elems_bytes (fd_num fd) (fd_type fd) vs)).
+    (* a scalar where an array / object is expected (repeated or map field) *)
+    Lemma scalar_rejected g e top stk buf :
+      g <> GZero -> (g_islist g = Some true \/ g_ismap g = Some true) ->
+      on_scalar junk e (mk_st (top :: stk) (Some g) false O buf) = MErr.
     Proof.
-      intros Hl Hn Hta Htf.
-      assert (Htop : fr_typ top <> T_MAP) by (rewrite Hta; discriminate).
-      assert (Hil : g_islist (GField fd) = Some true) by (cbn [g_islist]; rewrite Hl; reflexivity).
-      assert (Him : g_ismap (GField fd) = Some false) by (cbn [g_ismap]; rewrite Hl; reflexivity).
-      induction xs as [|x xs IH]; intros vs glob buf Hd Hg Hdep.
-      - cbn in Hd. inversion Hd; subst vs. cbn [flat_map J2P.run]. unfold elems_bytes.
-        destruct (type_numeric (fd_type fd)); cbn; rewrite app_nil_r; reflexivity.
-      - cbn [den_elems] in Hd.
-        destruct (den_single true S rec (fd_type fd) x) as [v| |] eqn:Hx; cbn [res_bind] in Hd; try discriminate.
-        destruct (den_elems true S rec (fd_type fd) xs) as [vs'| |] eqn:Hxs; cbn [res_bind] in Hd; try discriminate.
-        inversion Hd; subst vs. clear Hd.
-        inversion Hdep as [|? ? Hdx Hdxs]; subst.
-        cbn [flat_map]. rewrite run_app.
-        assert (Hres : glob = Some (GField fd) \/ (glob = None /\ fr_typ top = T_ARR /\ fr_fd top = Some (GField fd) /\ g_islist (GField fd) = Some true))
-          by (destruct Hg; [left|right]; auto).
-        assert (Hone : run (events x) (mk_st (top :: stk) glob false O buf)
-                       = MOk (mk_st (top :: stk) None false O (buf ++ elems_bytes (fd_num fd) (fd_type fd) [v]))).
-        { unfold den_single in Hx. destruct (fd_type fd) as [k|name] eqn:Ht.
-          - (* scalar element *)
-            destruct (denote_scalar_inv _ _ _ Hx) as (e & l & Hev & Hsc & Hpv & Hpay & Hwt & Hstr & Hnum).
-            rewrite Hev. cbn [J2P.run]. rewrite step_scalar by (auto; reflexivity).
-            assert (Hk : g_kind (GField fd) = k) by (cbn [g_kind]; rewrite Hl, Ht; reflexivity).
-            unfold elems_bytes. cbn [type_numeric]. rewrite Hnum.
-            destruct l as [z|b].
-            + rewrite (on_scalar_eval e top stk glob buf (GField fd) (leaf_bytes k (LScalar z)) []).
-              * subst v. cbn [flat_map leaf_pval packed_elem leaf_bytes app]. rewrite ?app_nil_r. reflexivity.
-              * exact Hres.
-              * rewrite Hstr, Hil. reflexivity.
-              * rewrite Hk. exact Hpay.
-              * exact Htop.
-            + rewrite (on_scalar_eval e top stk glob buf (GField fd) (leaf_bytes k (LBytes b)) (varint_enc (fd_num fd * 8 + kwire k))).
-              * subst v. cbn [flat_map]. rewrite app_nil_r, wenc_leaf, Hwt. reflexivity.
-              * exact Hres.
-              * rewrite Hstr, Hk. apply append_tag_ok. exact Hn.
-              * rewrite Hk. exact Hpay.
-              * exact Htop.
-          - (* message element *)
-            destruct x as [| | | | |ms']; try discriminate.
-            destruct (find_msg S name) as [md'|] eqn:Hfm; [|discriminate].
-            destruct (has_known md' ms') eqn:Hk; cbn [andb negb] in Hx; [|discriminate].
-            destruct (rec md' ms') as [fs'| |] eqn:Hr; cbn [res_bind] in Hx; try discriminate.
-            destruct (plen (encode_msg fs') <? 2 ^ 31) eqn:Hsz; cbn [andb negb] in Hx; [|discriminate].
-            inversion Hx; subst v.
-            assert (Hres' : glob = Some (GField fd) \/ (glob = None /\ fr_typ top = T_ARR /\ fr_fd top = Some (GField fd)))
-              by (destruct Hg; [left|right]; auto).
-            rewrite (msg_value_ok fd name md' ms' fs' top stk glob buf Ht Him Hfm Hk Hr Hsz Hn Hres' Htop Hdx).
-            unfold elems_bytes. cbn [type_numeric flat_map]. rewrite app_nil_r. reflexivity. }
-        rewrite Hone.
-        rewrite (IH vs' None _ eq_refl (or_intror eq_refl) Hdxs).
-        f_equal. f_equal.
-        + destruct xs; reflexivity.
-        + rewrite <- app_assoc. f_equal. unfold elems_bytes. destruct (type_numeric (fd_type fd)).
-          * cbn [flat_map]. rewrite app_nil_r. reflexivity.
-          * cbn [flat_map]. rewrite app_nil_r, wenc_app. reflexivity.
+      intros Hz Hlm. unfold on_scalar. cbn [m_inskip m_glob]. unfold check_scalar_field. cbn [m_glob].
+      destruct g; [congruence| |]; destruct Hlm as [H|H]; rewrite H; cbn [orb negb]; try reflexivity;
+        destruct (g_islist _) as [[|]|]; reflexivity.
     Qed.
 
-    Lemma den_elems_nil t xs : den_elems true S rec t xs = ROk [] -> xs = [].
+    Lemma events_scalar x e : ev_of x = Some e -> events x = [e] /\ (match e with EvNum _ | EvStr _ | EvBool _ => True | _ => False end).
+    Proof. apply ev_of_events. Qed.
+
+    Lemma wenc_flat_map_unpacked n vs : flat_map (vbytes false n) vs = wenc (flat_map (fun x => wfld n x) vs).
+    Proof. induction vs as [|v vs IH]; [reflexivity|]. cbn [flat_map]. rewrite wenc_app, IH. reflexivity. Qed.
+
+    Lemma denote_key_not_err kk s : denote_key true kk s <> RErr.
     Proof.
-      destruct xs as [|x xs]; [reflexivity|]. cbn [den_elems].
-      destruct (den_single true S rec t x); cbn [res_bind]; try discriminate.
-      destruct (den_elems true S rec t xs); cbn [res_bind]; discriminate.
+      unfold denote_key, denote_key0.
+      repeat match goal with |- context [if ?c then _ else _] => destruct c; cbn [res_bind] end;
+        try discriminate; destruct (parse_int s); cbn [res_bind]; try discriminate;
+        repeat match goal with |- context [if ?c then _ else _] => destruct c; cbn [res_bind] end; discriminate.
     Qed.
 
-    (* an array value of a repeated field: packed (tag, speculative length, elements, finish) or one record per element *)
-    Lemma repeated_ok fd p xs vs top stk buf :
-      fd_label fd = LRepeated p -> num_ok (fd_num fd) -> fr_typ top <> T_MAP ->
-      den_elems true S rec (fd_type fd) xs = ROk vs -> vs <> [] ->
-      (type_numeric (fd_type fd) = true -> (plen (flat_map packed_elem vs) <? 2 ^ 31) = true) ->
-      (length (top :: stk) + dw * json_depth (JArr xs) <= DEPTH)%nat ->
-      run (events (JArr xs)) (mk_st (top :: stk) (Some (GField fd)) false O buf)
-      = MOk (mk_st (top :: stk) None false O (buf ++ wenc (wfld (fd_num fd) (VList (type_numeric (fd_type fd)) vs)))).
-    Proof.
-      intros Hl Hn Htop Hd Hne Hsz Hdep.
-      assert (Hxs : xs <> []) by (intro; subst xs; cbn in Hd; inversion Hd; subst; contradiction).
-      assert (Hpush : (STK_DEPTH <=? length (top :: stk))%nat = false).
-      { cbn [json_depth] in Hdep. exact (depth_push _ _ Hdep). }
-      assert (Hm : (fr_typ top =? T_MAP) = false) by (apply Z.eqb_neq; exact Htop).
-      cbn [events]. rewrite run_cons. unfold step at 1. cbn [m_skipd]. unfold on_arr_begin.
-      cbn [m_inskip m_glob g_ispacked]. rewrite Hl.
-      destruct (type_numeric (fd_type fd)) eqn:Hnum.
-      - (* packed *)
-        cbn [m_buf g_num]. rewrite (append_tag_ok _ _ _ Hn). unfold push. cbn [set_buf m_stk m_buf m_glob m_inskip m_skipd].
-        rewrite Hpush. unfold set_stk, set_buf. cbn [m_stk m_buf m_glob m_inskip m_skipd].
-        set (tag := varint_enc (fd_num fd * 8 + 2)).
-        set (fr := mk_frame T_ARR None (Some (GField fd)) (plen (buf ++ tag))).
-        rewrite run_app.
-        assert (Hdc : Forall (fun x => (length (fr :: top :: stk) + dw * json_depth x <= DEPTH)%nat) xs).
-        { cbn [json_depth] in Hdep. apply (depth_children (fun x : json => x) xs (length (top :: stk)) 1 Hdw). exact Hdep. }
-        rewrite (elems_ok fd p fr (top :: stk) Hl Hn eq_refl eq_refl xs vs (Some (GField fd)) _ Hd (or_introl eq_refl) Hdc).
-        destruct xs as [|x0 xs0]; [contradiction|].
-        cbn [J2P.run]. unfold step. cbn [m_skipd]. unfold on_arr_end. cbn [m_inskip top_of m_stk hd].
-        unfold fr at 1. cbn [fr_pos]. rewrite plen_not_m1. unfold fr at 1. cbn [fr_fd g_ispacked]. rewrite Hl, Hnum.
-        cbn [m_buf]. unfold fr at 1. cbn [fr_pos]. unfold elems_bytes. rewrite Hnum.
-        rewrite <- (app_assoc (buf ++ tag) [0]).
-        rewrite (finish_ok junk (buf ++ tag) 0 _ Hjunk (Hsz eq_refl)).
-        unfold on_value_end. cbn [set_buf m_stk m_glob m_buf m_inskip m_skipd].
-        unfold fr at 1. cbn [fr_typ]. cbn [Z.eqb T_OBJ T_ARR Pos.eqb orb].
-        unfold set_stk. cbn [m_stk m_glob m_buf m_inskip m_skipd].
-        cbn [wfld]. rewrite wenc_single. cbn [wt_of_wval wenc_val]. unfold tag. rewrite <- !app_assoc. reflexivity.
-      - (* one record per element *)
-        unfold push. cbn [m_stk]. rewrite Hpush. unfold set_stk. cbn [m_stk m_buf m_glob m_inskip m_skipd].
-        set (fr := mk_frame T_ARR None (Some (GField fd)) (-1)).
-        rewrite run_app.
-        assert (Hdc : Forall (fun x => (length (fr :: top :: stk) + dw * json_depth x <= DEPTH)%nat) xs).
-        { cbn [json_depth] in Hdep. apply (depth_children (fun x : json => x) xs (length (top :: stk)) 1 Hdw). exact Hdep. }
-        rewrite (elems_ok fd p fr (top :: stk) Hl Hn eq_refl eq_refl xs vs (Some (GField fd)) _ Hd (or_introl eq_refl) Hdc).
-        destruct xs as [|x0 xs0]; [contradiction|].
-        cbn [J2P.run]. unfold step. cbn [m_skipd]. unfold on_arr_end. cbn [m_inskip top_of m_stk hd].
-        unfold fr at 1. cbn [fr_pos Z.eqb Pos.eqb].
-        unfold on_value_end. cbn [m_stk m_glob].
-        unfold fr at 1. cbn [fr_typ]. cbn [Z.eqb T_OBJ T_ARR Pos.eqb orb].
-        unfold set_stk. cbn [m_stk m_glob m_buf m_inskip m_skipd].
-        unfold elems_bytes. rewrite Hnum. cbn [wfld]. reflexivity.
-    Qed.
-
-
-    (* ---------------------------------------------------------------- maps *)
     Lemma encode_map_key_app buf s kk :
       encode_map_key buf s kk = match encode_map_key [] s kk with Some b => Some (buf ++ b) | None => None end.
     Proof.
       unfold encode_map_key. cbn [app].
-      repeat match goal with |- context [if ?c then _ else _] => destruct c; try reflexivity end.
+      repeat match goal with
+             | |- context [if ?c then _ else _] => destruct c; try reflexivity
+             | |- context [match ?c with Some _ => _ | None => _ end] => destruct c; try reflexivity
+             end.
     Qed.
 
     Lemma denote_key_inv kk s key : denote_key true kk s = ROk key ->
@@ -449,224 +450,176 @@ Section Refine.
     Lemma key_field_enc key : wenc_field (key_field key) = varint_enc (1 * 8 + wt_of_wval (snd (key_field key))) ++ wenc_val (snd (key_field key)).
     Proof. unfold wenc_field. rewrite key_field_fst. reflexivity. Qed.
 
-    Lemma num_ok_1 : num_ok 1.  Proof. reflexivity. Qed.
-    Lemma num_ok_2 : num_ok 2.  Proof. reflexivity. Qed.
-
-    (* one map entry: pair tag, speculative length, key field, value field, pair length finished, pair frame popped *)
-    Lemma entry_ok fd kk ks x key v stk glob buf :
-      fd_label fd = LMap kk -> num_ok (fd_num fd) ->
-      denote_key true kk ks = ROk key -> den_single true S rec (fd_type fd) x = ROk v ->
-      (plen (wenc (key_field key :: wfld 2 v)) <? 2 ^ 31) = true ->
-      let mapfr := mk_frame T_MAP None (Some (GField fd)) (-1) in
-      (length (mapfr :: stk) + 1 + dw * json_depth x <= DEPTH)%nat ->
-      run (member_events (ks, x)) (mk_st (mapfr :: stk) glob false O buf)
-      = MOk (mk_st (mapfr :: stk) None false O (buf ++ wenc [(fd_num fd, WBytes (wenc (key_field key :: wfld 2 v)))])).
-    Proof.
-      intros Hl Hn Hk Hv Hsz mapfr Hdep.
-      destruct (denote_key_inv _ _ _ Hk) as [Hkb Hkw].
-      set (tag := varint_enc (fd_num fd * 8 + 2)).
-      set (pre := buf ++ tag).
-      set (hdr := wenc_field (key_field key)).
-      set (pair := mk_frame T_MAP None (Some (GField fd)) (plen pre)).
-      assert (Hpush : (STK_DEPTH <=? length (mapfr :: stk))%nat = false).
-      { apply Nat.leb_gt. unfold STK_DEPTH. unfold DEPTH in Hdep. lia. }
-      unfold member_events. cbn [fst snd]. rewrite run_cons.
-      assert (Hkey : step disallow S junk (EvKey ks) (mk_st (mapfr :: stk) glob false O buf)
-                     = MOk (mk_st (pair :: mapfr :: stk) (Some (GMapVal fd)) false O ((pre ++ [0]) ++ hdr))).
-      { unfold step. cbn [m_skipd]. unfold on_key. cbn [top_of m_stk hd]. unfold mapfr. cbn [fr_root fr_typ fr_fd].
-        cbn [Z.eqb T_OBJ T_MAP Pos.eqb]. rewrite Hl. cbn [m_buf]. rewrite (append_tag_ok _ _ _ Hn).
-        fold tag. fold pre. rewrite (append_tag_ok _ _ _ num_ok_1).
-        rewrite encode_map_key_app, Hkb. unfold push. cbn [set_buf m_stk m_buf m_glob m_inskip m_skipd].
-        cbn [length] in Hpush. cbn [length]. rewrite Hpush. unfold set_stk, set_glob. cbn [m_stk m_buf m_glob m_inskip m_skipd].
-        unfold hdr. rewrite key_field_enc, Hkw. rewrite <- !app_assoc. reflexivity. }
-      rewrite Hkey. clear Hkey.
-      assert (Hfin : forall vb, wenc (wfld 2 v) = vb ->
-                finish junk (((pre ++ [0]) ++ hdr) ++ vb) (plen pre)
-                = Some (buf ++ wenc [(fd_num fd, WBytes (wenc (key_field key :: wfld 2 v)))])).
-      { intros vb Hvb. rewrite <- (app_assoc (pre ++ [0])), <- (app_assoc pre [0]).
-        assert (HE : hdr ++ vb = wenc (key_field key :: wfld 2 v)) by (rewrite wenc_cons, Hvb; reflexivity).
-        rewrite HE. rewrite (finish_ok junk pre 0 _ Hjunk Hsz). rewrite wenc_single. cbn [wt_of_wval wenc_val].
-        unfold pre, tag. rewrite <- !app_assoc. reflexivity. }
-      unfold den_single in Hv. destruct (fd_type fd) as [k|name] eqn:Ht.
-      - (* scalar value *)
-        destruct (denote_scalar_inv _ _ _ Hv) as (e & l & Hev & Hsc & Hpv & Hpay & Hwt & Hstr & Hnum).
-        rewrite Hev. cbn [J2P.run]. rewrite step_scalar by (auto; reflexivity).
-        unfold on_scalar. cbn [m_inskip m_glob m_stk m_buf top_of hd g_islist g_num g_kind kind_of_type]. rewrite Ht. cbn [kind_of_type].
-        assert (Htag : (if is_str_ev e
-                        then match append_tag ((pre ++ [0]) ++ hdr) 2 (kwire k) with Some b => MOk (set_buf (mk_st (pair :: mapfr :: stk) (Some (GMapVal fd)) false O ((pre ++ [0]) ++ hdr)) b) | None => MErr end
-                        else match append_tag ((pre ++ [0]) ++ hdr) 2 (kwire k) with Some b => MOk (set_buf (mk_st (pair :: mapfr :: stk) (Some (GMapVal fd)) false O ((pre ++ [0]) ++ hdr)) b) | None => MErr end)
-                       = MOk (mk_st (pair :: mapfr :: stk) (Some (GMapVal fd)) false O (((pre ++ [0]) ++ hdr) ++ varint_enc (2 * 8 + kwire k)))).
-        { rewrite (append_tag_ok _ _ _ num_ok_2). destruct (is_str_ev e); reflexivity. }
-        rewrite Htag. clear Htag. rewrite Hpay. unfold set_buf. cbn [m_buf m_stk m_glob m_inskip m_skipd].
-        unfold on_value_end. cbn [m_stk m_glob m_buf]. unfold pair at 1. cbn [fr_typ Z.eqb T_MAP Pos.eqb].
-        unfold pair at 1. cbn [fr_pos].
-        rewrite <- (app_assoc ((pre ++ [0]) ++ hdr)).
-        rewrite (Hfin (varint_enc (2 * 8 + kwire k) ++ leaf_bytes k l)).
-        + unfold set_buf, set_stk, set_glob. cbn. reflexivity.
-        + subst v. rewrite wenc_leaf, Hwt. reflexivity.
-      - (* message value *)
-        destruct x as [| | | | |ms']; try discriminate.
-        destruct (find_msg S name) as [md'|] eqn:Hfm; [|discriminate].
-        destruct (has_known md' ms') eqn:Hkn; cbn [andb negb] in Hv; [|discriminate].
-        destruct (rec md' ms') as [fs'| |] eqn:Hr; cbn [res_bind] in Hv; try discriminate.
-        destruct (plen (encode_msg fs') <? 2 ^ 31) eqn:Hsz2; cbn [andb negb] in Hv; [|discriminate].
-        inversion Hv; subst v. clear Hv.
-        set (b3 := (pre ++ [0]) ++ hdr).
-        set (vtag := varint_enc (2 * 8 + 2)).
-        set (objfr := mk_frame T_OBJ None (Some (GMapVal fd)) (plen (b3 ++ vtag))).
-        cbn [events]. rewrite run_cons.
-        assert (Hbeg : step disallow S junk EvObjBegin (mk_st (pair :: mapfr :: stk) (Some (GMapVal fd)) false O b3)
-                       = MOk (mk_st (objfr :: pair :: mapfr :: stk) (Some (GMapVal fd)) false O ((b3 ++ vtag) ++ [0]))).
-        { unfold step. cbn [m_skipd]. unfold on_obj_begin. cbn [m_inskip m_glob g_ismap g_num m_buf].
-          rewrite (append_tag_ok _ _ _ num_ok_2). unfold push. cbn [set_buf m_stk m_buf m_glob m_inskip m_skipd].
-          assert (Hp2 : (STK_DEPTH <=? length (pair :: mapfr :: stk))%nat = false).
-          { apply Nat.leb_gt. unfold STK_DEPTH. unfold DEPTH in Hdep. cbn [json_depth] in Hdep. rewrite Nat.mul_succ_r in Hdep. cbn [length] in *. lia. }
-          rewrite Hp2. reflexivity. }
-        rewrite Hbeg. clear Hbeg. rewrite run_app.
-        change (flat_map (fun m : list Z * json => EvKey (fst m) :: events (snd m)) ms') with (flat_map member_events ms').
-        assert (Hof : obj_frame objfr md').
-        { split; [reflexivity|]. right. split; [reflexivity|]. exists (GMapVal fd). split; [reflexivity|].
-          cbn [g_message]. rewrite Ht, Hfm. reflexivity. }
-        assert (Hdc : Forall (fun m => (length (objfr :: pair :: mapfr :: stk) + dw * json_depth (snd m) <= DEPTH)%nat) ms').
-        { cbn [json_depth] in Hdep.
-          assert (Hd' : (length (mapfr :: stk) + 1 + dw * Datatypes.S (fold_right (fun x m => Nat.max (json_depth (snd x)) m) O ms') <= DEPTH)%nat) by exact Hdep.
-          pose proof (depth_children (fun m : list Z * json => snd m) ms' (length (mapfr :: stk) + 1) 1 Hdw Hd') as Hf.
-          eapply Forall_impl; [|exact Hf]. cbn beta. intros a Ha. cbn [length] in *. lia. }
-        rewrite (Hrec md' ms' fs' objfr (pair :: mapfr :: stk) _ _ Hr (md_ok_or _ _ Hfm) Hof Hdc).
-        rewrite Hkn. cbn [J2P.run]. unfold step. cbn [m_skipd]. unfold on_obj_end.
-        cbn [m_inskip top_of m_stk hd]. unfold objfr at 1. cbn [fr_pos]. rewrite plen_not_m1.
-        cbn [m_buf]. unfold objfr at 1. cbn [fr_pos].
-        rewrite <- (app_assoc (b3 ++ vtag) [0] (encode_msg fs')).
-        rewrite (finish_ok junk (b3 ++ vtag) 0 (encode_msg fs') Hjunk Hsz2).
-        unfold on_value_end. cbn [set_buf m_stk m_glob m_buf m_inskip m_skipd].
-        unfold objfr at 1. cbn [fr_typ Z.eqb T_OBJ Pos.eqb]. unfold pair at 1. cbn [fr_typ Z.eqb T_MAP Pos.eqb].
-        unfold pair at 1. cbn [fr_pos]. unfold b3.
-        rewrite <- (app_assoc ((pre ++ [0]) ++ hdr)).
-        rewrite (Hfin (vtag ++ varint_enc (plen (encode_msg fs')) ++ encode_msg fs')).
-        + unfold set_buf, set_stk. cbn. reflexivity.
-        + cbn [wfld]. rewrite wenc_single. cbn [wt_of_wval wenc_val]. unfold vtag, encode_msg, msg_wire. reflexivity.
-    Qed.
-
-    Lemma wenc_map {A} (f : A -> wfield) l : wenc (map f l) = flat_map (fun x => wenc [f x]) l.
-    Proof. induction l as [|x l IH]; [reflexivity|]. cbn [map flat_map]. rewrite wenc_cons, IH. unfold wenc at 2. cbn [flat_map]. rewrite app_nil_r. reflexivity. Qed.
-
+    (* the entries of an object value of a map field: per pair tag, speculative length, key field, value, pair closed *)
     Lemma entries_ok fd kk stk :
       fd_label fd = LMap kk -> num_ok (fd_num fd) ->
       let mapfr := mk_frame T_MAP None (Some (GField fd)) (-1) in
-      forall ms kvs glob buf,
-        den_entries true S rec kk (fd_type fd) ms = ROk kvs ->
-        forallb (fun kx => plen (wenc (key_field (fst kx) :: wfld 2 (snd kx))) <? 2 ^ 31) kvs = true ->
-        Forall (fun m => (length (mapfr :: stk) + 1 + dw * json_depth (snd m) <= DEPTH)%nat) ms ->
-        run (flat_map member_events ms) (mk_st (mapfr :: stk) glob false O buf)
-        = MOk (mk_st (mapfr :: stk) (match ms with [] => glob | _ => None end) false O (buf ++ wenc (wfld (fd_num fd) (VMap kvs)))).
+      forall ms buf,
+        Forall (fun m => (length (mapfr :: stk) + 1 + need_single S recn (fd_type fd) (snd m) <= STK_DEPTH)%nat) ms ->
+        result (den_entries true S rec kk (fd_type fd) ms)
+               (run (flat_map member_events ms) (mk_st (mapfr :: stk) None false O buf))
+               (fun kvs => MOk (mk_st (mapfr :: stk) None false O (buf ++ wenc (wfld (fd_num fd) (VMap kvs))))).
     Proof.
-      intros Hl Hn mapfr. subst mapfr. induction ms as [|[ks x] r IH]; intros kvs glob buf Hd Hsz Hdep.
-      - cbn in Hd. inversion Hd; subst kvs. cbn. rewrite app_nil_r. reflexivity.
-      - cbn [den_entries] in Hd.
-        destruct (denote_key true kk ks) as [key| |] eqn:Hk; cbn [res_bind] in Hd; try discriminate.
-        destruct (den_single true S rec (fd_type fd) x) as [v| |] eqn:Hv; cbn [res_bind] in Hd; try discriminate.
-        destruct (den_entries true S rec kk (fd_type fd) r) as [kvs'| |] eqn:Hr; cbn [res_bind] in Hd; try discriminate.
-        inversion Hd; subst kvs. clear Hd.
-        cbn [forallb fst snd] in Hsz. apply andb_true_iff in Hsz. destruct Hsz as [Hs1 Hs2].
-        inversion Hdep as [|? ? Hdx Hdr]; subst. cbn [snd] in Hdx.
-        change (flat_map member_events ((ks, x) :: r)) with (member_events (ks, x) ++ flat_map member_events r).
-        rewrite run_app.
-        rewrite (entry_ok fd kk ks x key v stk glob buf Hl Hn Hk Hv Hs1 Hdx).
-        rewrite (IH kvs' None _ eq_refl Hs2 Hdr).
-        f_equal. f_equal.
-        + destruct r; reflexivity.
-        + rewrite <- app_assoc. f_equal. cbn [wfld map fst snd]. rewrite (wenc_cons _ (map _ kvs')).
-          unfold wenc at 1. cbn [flat_map]. rewrite app_nil_r. reflexivity.
+      intros Hl Hn mapfr. subst mapfr. induction ms as [|[ks x] r IH]; intros buf Hdep.
+      - cbn. rewrite app_nil_r. reflexivity.
+      - cbn [den_entries]. inversion Hdep as [|? ? Hdx Hdr]; subst. cbn [snd] in Hdx.
+        change (flat_map member_events ((ks, x) :: r)) with ((EvKey ks :: events x) ++ flat_map member_events r).
+        destruct (denote_key true kk ks) as [key| |] eqn:Hk; cbn [res_bind];
+          [|exfalso; exact (denote_key_not_err _ _ Hk)|exact I].
+        destruct (denote_key_inv _ _ _ Hk) as [Hkb Hkw].
+        set (mapfr := mk_frame T_MAP None (Some (GField fd)) (-1)) in *.
+        set (tag := varint_enc (fd_num fd * 8 + 2)).
+        set (pre := buf ++ tag).
+        set (hdr := wenc_field (key_field key)).
+        set (pair := mk_frame T_MAP None (Some (GField fd)) (plen pre)).
+        rewrite run_app, run_cons.
+        assert (Hkey : step disallow S junk (EvKey ks) (mk_st (mapfr :: stk) None false O buf)
+                       = MOk (mk_st (pair :: mapfr :: stk) (Some (GMapVal fd)) false O ((pre ++ [0]) ++ hdr))).
+        { unfold step. cbn [m_skipd]. unfold on_key. cbn [top_of m_stk hd]. unfold mapfr. cbn [fr_root fr_typ fr_fd].
+          cbn [Z.eqb T_OBJ T_MAP Pos.eqb]. rewrite Hl. cbn [m_buf]. rewrite (append_tag_ok _ _ _ Hn).
+          fold tag. fold pre. rewrite (append_tag_ok _ _ _ num_ok_1).
+          rewrite encode_map_key_app, Hkb.
+          rewrite push_ok by (cbn [set_buf m_stk length] in *; unfold STK_DEPTH in *; lia).
+          unfold set_stk, set_glob, set_buf. cbn [m_stk m_buf m_glob m_inskip m_skipd].
+          unfold hdr. rewrite key_field_enc, Hkw. rewrite <- !app_assoc. reflexivity. }
+        rewrite Hkey. clear Hkey.
+        assert (Hc : vctx (GMapVal fd) pair (Some (GMapVal fd))) by (apply CtxMember; reflexivity).
+        assert (Hpk : packed_of (GMapVal fd) = true -> type_numeric (fd_type fd) = true) by (cbn; discriminate).
+        assert (Hd1 : (length (pair :: mapfr :: stk) + need_single S recn (fd_type fd) x <= STK_DEPTH)%nat)
+          by (cbn [length] in *; lia).
+        pose proof (single_ok (GMapVal fd) (fd_type fd) x pair (mapfr :: stk) _ ((pre ++ [0]) ++ hdr) Hc eq_refl num_ok_2 Hpk Hd1) as Hx.
+        destruct (den_single true S rec (fd_type fd) x) as [v| |]; cbn [res_bind result] in *; [|rewrite Hx; reflexivity|exact I].
+        destruct (plen (wenc (key_field key :: wfld 2 v)) <? 2 ^ 31) eqn:Hsz; cbn [andb negb]; [|exact I].
+        rewrite Hx. unfold close. unfold pair at 1. cbn [fr_typ Z.eqb T_MAP Pos.eqb]. unfold pair at 1. cbn [fr_pos packed_of g_ispacked vbytes g_num].
+        rewrite <- (app_assoc (pre ++ [0])), <- (app_assoc pre [0]).
+        assert (HE : hdr ++ wenc (wfld 2 v) = wenc (key_field key :: wfld 2 v)) by (rewrite wenc_cons; reflexivity).
+        rewrite HE, (finish_ok junk pre 0 _ Hjunk Hsz).
+        specialize (IH (pre ++ varint_enc (plen (wenc (key_field key :: wfld 2 v))) ++ wenc (key_field key :: wfld 2 v)) Hdr).
+        destruct (den_entries true S rec kk (fd_type fd) r) as [kvs| |]; cbn [res_bind result] in *; [|exact IH|exact I].
+        rewrite IH. f_equal. f_equal. cbn [wfld map fst snd]. rewrite (wenc_cons _ (map _ kvs)).
+        unfold wenc_field at 1. cbn [fst snd wt_of_wval wenc_val]. unfold pre, tag. rewrite <- !app_assoc. reflexivity.
     Qed.
 
-    Lemma den_entries_nil kk t ms : den_entries true S rec kk t ms = ROk [] -> ms = [].
+    Lemma Forall_max {A} (f : A -> nat) (l : list A) (P : nat) (L : nat) :
+      (L + fold_right (fun x m => Nat.max (f x) m) O l <= P)%nat -> Forall (fun x => (L + f x <= P)%nat) l.
     Proof.
-      destruct ms as [|[k x] ms]; [reflexivity|]. cbn [den_entries].
-      destruct (denote_key true kk k); cbn [res_bind]; try discriminate.
-      destruct (den_single true S rec t x); cbn [res_bind]; try discriminate.
-      destruct (den_entries true S rec kk t ms); cbn [res_bind]; discriminate.
+      intro H. apply Forall_forall. intros x Hin.
+      pose proof (fold_max_ge f l x Hin) as Hm. lia.
     Qed.
 
-    (* an object value of a map field: map frame, entries, pop *)
-    Lemma map_field_ok fd kk ms kvs top stk buf :
-      (2 <= dw)%nat ->
-      fd_label fd = LMap kk -> num_ok (fd_num fd) ->
-      den_entries true S rec kk (fd_type fd) ms = ROk kvs -> kvs <> [] ->
-      forallb (fun kx => plen (wenc (key_field (fst kx) :: wfld 2 (snd kx))) <? 2 ^ 31) kvs = true ->
-      (length (top :: stk) + dw * json_depth (JObj ms) <= DEPTH)%nat ->
-      run (events (JObj ms)) (mk_st (top :: stk) (Some (GField fd)) false O buf)
-      = MOk (mk_st (top :: stk) None false O (buf ++ wenc (wfld (fd_num fd) (VMap kvs)))).
+    (* the value of a known, non-null member of a message object *)
+    Lemma field_ok fd v top stk buf :
+      num_ok (fd_num fd) -> json_is_null v = false -> fr_typ top = T_OBJ ->
+      (length (top :: stk) + need_field S recn fd v <= STK_DEPTH)%nat ->
+      result (den_field true S rec fd v) (run (events v) (mk_st (top :: stk) (Some (GField fd)) false O buf))
+             (fun ov => MOk (mk_st (top :: stk) None false O (buf ++ match ov with Some pv => wenc (wfld (fd_num fd) pv) | None => [] end))).
     Proof.
-      intros H2 Hl Hn Hd Hne Hsz Hdep.
-      assert (Hms : ms <> []) by (intro; subst ms; cbn in Hd; inversion Hd; subst; contradiction).
-      cbn [events]. rewrite run_cons. unfold step at 1. cbn [m_skipd]. unfold on_obj_begin.
-      cbn [m_inskip m_glob g_ismap]. rewrite Hl. unfold push. cbn [m_stk].
-      cbn [json_depth] in Hdep. rewrite (depth_push _ _ Hdep). unfold set_stk. cbn [m_stk m_buf m_glob m_inskip m_skipd].
-      rewrite run_app.
-      change (flat_map (fun m : list Z * json => EvKey (fst m) :: events (snd m)) ms) with (flat_map member_events ms).
-      set (mapfr := mk_frame T_MAP None (Some (GField fd)) (-1)).
-      assert (Hdc : Forall (fun m => (length (mapfr :: top :: stk) + 1 + dw * json_depth (snd m) <= DEPTH)%nat) ms).
-      { pose proof (depth_children (fun m : list Z * json => snd m) ms (length (top :: stk)) 2 H2 Hdep) as Hf.
-        eapply Forall_impl; [|exact Hf]. cbn beta. intros a Ha. cbn [length] in *. lia. }
-      rewrite (entries_ok fd kk (top :: stk) Hl Hn ms kvs _ _ Hd Hsz Hdc).
-      destruct ms as [|m0 ms0]; [contradiction|].
-      cbn [J2P.run]. unfold step. cbn [m_skipd]. unfold on_obj_end. cbn [m_inskip top_of m_stk hd].
-      cbn [fr_pos Z.eqb Pos.eqb]. unfold on_value_end. cbn [m_stk m_glob].
-      cbn [fr_typ Z.eqb T_OBJ T_ARR T_MAP Pos.eqb orb].
-      unfold set_stk. cbn. reflexivity.
-    Qed.
-
-    (* the value of a known, non-null member *)
-    Lemma field_ok md k fd v ov top stk buf :
-      (md_ok md \/ (2 <= dw)%nat) -> find_field_name md k = Some fd -> num_ok (fd_num fd) ->
-      den_field true S rec fd v = ROk ov -> fr_typ top = T_OBJ ->
-      (length (top :: stk) + dw * json_depth v <= DEPTH)%nat ->
-      run (events v) (mk_st (top :: stk) (Some (GField fd)) false O buf)
-      = MOk (mk_st (top :: stk) None false O (buf ++ match ov with Some pv => wenc (wfld (fd_num fd) pv) | None => [] end)).
-    Proof.
-      intros Hmd Hf Hn Hd Hto Hdep.
-      assert (Htop : fr_typ top <> T_MAP) by (rewrite Hto; discriminate).
-      assert (Hnm : fd_label fd = LSingular \/ (exists p, fd_label fd = LRepeated p) -> g_ismap (GField fd) = Some false)
-        by (intros [H|[p H]]; cbn [g_ismap]; rewrite H; reflexivity).
-      unfold den_field in Hd. destruct (fd_label fd) as [|p|kk] eqn:Hl.
+      intros Hn Hnull Hto Hdep.
+      assert (Hcl : forall b, close top stk b = MOk (mk_st (top :: stk) None false O b)) by (intro b; unfold close; rewrite Hto; reflexivity).
+      unfold den_field, need_field in *. destruct (fd_label fd) as [|p|kk] eqn:Hl.
       - (* singular *)
-        destruct (den_single true S rec (fd_type fd) v) as [pv| |] eqn:Hs; cbn [res_bind] in Hd; try discriminate.
-        inversion Hd; subst ov. unfold den_single in Hs. destruct (fd_type fd) as [kd|name] eqn:Ht.
-        + apply (scalar_member_ok fd kd v pv top stk buf Ht Hl Hn Hs Htop).
-        + destruct v as [| | | | |ms']; try discriminate.
-          destruct (find_msg S name) as [md'|] eqn:Hfm; [|discriminate].
-          destruct (has_known md' ms') eqn:Hk; cbn [andb negb] in Hs; [|discriminate].
-          destruct (rec md' ms') as [fs'| |] eqn:Hr; cbn [res_bind] in Hs; try discriminate.
-          destruct (plen (encode_msg fs') <? 2 ^ 31) eqn:Hsz; cbn [andb negb] in Hs; [|discriminate].
-          inversion Hs; subst pv.
-          apply (msg_value_ok fd name md' ms' fs' top stk _ buf Ht (Hnm (or_introl eq_refl)) Hfm Hk Hr Hsz Hn (or_introl eq_refl) Htop Hdep).
+        assert (Hc : vctx (GField fd) top (Some (GField fd))) by (apply CtxMember; cbn; rewrite ?Hl; reflexivity).
+        assert (Hpk : packed_of (GField fd) = true -> type_numeric (fd_type fd) = true) by (cbn; rewrite Hl; discriminate).
+        pose proof (single_ok (GField fd) (fd_type fd) v top stk _ buf Hc eq_refl Hn Hpk Hdep) as Hx.
+        destruct (den_single true S rec (fd_type fd) v) as [pv| |]; cbn [res_bind result] in *; [|exact Hx|exact I].
+        rewrite Hx, Hcl. unfold vbytes, packed_of. cbn [g_ispacked g_num]. rewrite Hl. reflexivity.
       - (* repeated *)
-        destruct v as [| | | |xs|]; try discriminate.
-        destruct (den_elems true S rec (fd_type fd) xs) as [vs| |] eqn:He; cbn [res_bind] in Hd; try discriminate.
-        destruct vs as [|v0 vs0]; [discriminate|].
-        destruct (type_numeric (fd_type fd)) eqn:Hnum; cbn [andb] in Hd.
-        + destruct (plen (flat_map packed_elem (v0 :: vs0)) <? 2 ^ 31) eqn:Hsz; cbn [negb] in Hd; [|discriminate].
-          inversion Hd; subst ov.
-          assert (Hne : v0 :: vs0 <> []) by discriminate.
-          rewrite (repeated_ok fd p xs (v0 :: vs0) top stk buf Hl Hn Htop He Hne (fun _ => Hsz) Hdep).
-          rewrite Hnum. reflexivity.
-        + inversion Hd; subst ov.
-          assert (Hne : v0 :: vs0 <> []) by discriminate.
-          assert (Hs' : type_numeric (fd_type fd) = true -> (plen (flat_map packed_elem (v0 :: vs0)) <? 2 ^ 31) = true)
-            by (rewrite Hnum; discriminate).
-          rewrite (repeated_ok fd p xs (v0 :: vs0) top stk buf Hl Hn Htop He Hne Hs' Hdep).
-          rewrite Hnum. reflexivity.
+        assert (Hil : g_islist (GField fd) = Some true) by (cbn; rewrite Hl; reflexivity).
+        assert (Him : g_ismap (GField fd) = Some false) by (cbn; rewrite Hl; reflexivity).
+        assert (Hz : GField fd <> GZero) by discriminate.
+        destruct v as [| b | l | s0 | xs | ms]; try discriminate Hnull.
+        1-3: cbn [result events]; rewrite run_one, step_scalar by (auto; reflexivity);
+             apply scalar_rejected; auto.
+        + (* array *)
+          cbn zeta. rewrite <- andb_assoc.
+          destruct (type_numeric (fd_type fd) && negb p) eqn:Hg; cbn [andb]; [exact I|].
+          assert (Hflag : type_numeric (fd_type fd) = p && type_numeric (fd_type fd))
+            by (destruct (type_numeric (fd_type fd)), p; cbn in *; congruence).
+          set (pk := p && type_numeric (fd_type fd)) in *. rewrite Hflag.
+          assert (Hpo : packed_of (GField fd) = pk) by (unfold packed_of; cbn [g_ispacked]; rewrite Hl; reflexivity).
+          assert (Hpk : packed_of (GField fd) = true -> type_numeric (fd_type fd) = true)
+            by (rewrite Hpo; unfold pk; intro H; apply andb_true_iff in H; tauto).
+          cbn [events]. rewrite run_cons. unfold step at 1. cbn [m_skipd]. unfold on_arr_begin.
+          cbn [m_inskip m_glob]. rewrite Hil. cbn [g_ispacked]. rewrite Hl. fold pk.
+          destruct pk eqn:Hpkv.
+          * (* packed *)
+            cbn [m_buf g_num]. rewrite (append_tag_ok _ _ _ Hn).
+            rewrite push_ok by (cbn [set_buf m_stk]; unfold STK_DEPTH in *; lia).
+            unfold set_stk, set_buf, set_glob. cbn [m_stk m_buf m_glob m_inskip m_skipd].
+            set (tag := varint_enc (fd_num fd * 8 + 2)).
+            set (fr := mk_frame T_ARR None (Some (GField fd)) (plen (buf ++ tag))).
+            rewrite run_app.
+            assert (Hd2 : (length (fr :: top :: stk) + fold_right (fun x m => Nat.max (need_single S recn (fd_type fd) x) m) O xs <= STK_DEPTH)%nat)
+              by (cbn [length] in *; lia).
+            pose proof (elems_ok (GField fd) (fd_type fd) fr (top :: stk) eq_refl eq_refl Hil Him eq_refl Hn Hpk xs ((buf ++ tag) ++ [0]) Hd2) as He.
+            destruct (den_elems true S rec (fd_type fd) xs) as [vs| |]; cbn [res_bind result] in *; [|rewrite He; reflexivity|exact I].
+            destruct vs as [|v0 vs0]; [exact I|].
+            destruct (plen (flat_map packed_elem (v0 :: vs0)) <? 2 ^ 31) eqn:Hsz; cbn [andb negb]; [|exact I]. cbn [result].
+            rewrite He, run_one. unfold step. cbn [m_skipd]. unfold on_arr_end. cbn [m_inskip top_of m_stk hd].
+            unfold fr at 1. cbn [fr_pos]. rewrite plen_not_m1. unfold fr at 1. cbn [fr_fd g_ispacked]. rewrite Hl. fold pk. rewrite Hpkv.
+            cbn [m_buf]. unfold fr at 1. cbn [fr_pos]. rewrite Hpo. unfold vbytes.
+            rewrite <- (app_assoc (buf ++ tag) [0]).
+            change (flat_map (fun v : pval => packed_elem v) (v0 :: vs0)) with (flat_map packed_elem (v0 :: vs0)).
+            rewrite (finish_ok junk (buf ++ tag) 0 _ Hjunk Hsz).
+            unfold on_value_end. cbn [set_buf m_stk m_glob m_buf m_inskip m_skipd].
+            unfold fr at 1. cbn [fr_typ]. cbn [Z.eqb T_OBJ T_ARR Pos.eqb orb].
+            unfold set_stk. cbn [m_stk m_glob m_buf m_inskip m_skipd].
+            cbn [wfld]. rewrite wenc_single. cbn [wt_of_wval wenc_val]. unfold tag. rewrite <- !app_assoc. reflexivity.
+          * (* one record per element *)
+            rewrite push_ok by (cbn [m_stk]; unfold STK_DEPTH in *; lia).
+            unfold set_stk, set_glob. cbn [m_stk m_buf m_glob m_inskip m_skipd].
+            set (fr := mk_frame T_ARR None (Some (GField fd)) (-1)).
+            rewrite run_app.
+            assert (Hd2 : (length (fr :: top :: stk) + fold_right (fun x m => Nat.max (need_single S recn (fd_type fd) x) m) O xs <= STK_DEPTH)%nat)
+              by (cbn [length] in *; lia).
+            pose proof (elems_ok (GField fd) (fd_type fd) fr (top :: stk) eq_refl eq_refl Hil Him eq_refl Hn Hpk xs buf Hd2) as He.
+            destruct (den_elems true S rec (fd_type fd) xs) as [vs| |]; cbn [res_bind result] in *; [|rewrite He; reflexivity|exact I].
+            assert (Hend : run [EvArrEnd] (mk_st (fr :: top :: stk) None false O (buf ++ flat_map (vbytes (packed_of (GField fd)) (g_num (GField fd))) vs))
+                           = MOk (mk_st (top :: stk) None false O (buf ++ wenc (flat_map (fun x => wfld (fd_num fd) x) vs)))).
+            { rewrite run_one. unfold step. cbn [m_skipd]. unfold on_arr_end. cbn [m_inskip top_of m_stk hd].
+              unfold fr at 1. cbn [fr_pos Z.eqb Pos.eqb]. unfold on_value_end. cbn [m_stk m_glob].
+              unfold fr at 1. cbn [fr_typ]. cbn [Z.eqb T_OBJ T_ARR Pos.eqb orb].
+              unfold set_stk. cbn [m_stk m_glob m_buf m_inskip m_skipd].
+              rewrite Hpo. cbn [g_num]. rewrite wenc_flat_map_unpacked. reflexivity. }
+            destruct vs as [|v0 vs0]; cbn [andb result].
+            -- rewrite He, Hend. reflexivity.
+            -- rewrite He, Hend. reflexivity.
+        + (* object for a repeated field *)
+          cbn [result events]. rewrite run_cons. unfold step. cbn [m_skipd]. unfold on_obj_begin. cbn [m_inskip m_glob].
+          rewrite Him, Hil. rewrite orb_true_r. reflexivity.
       - (* map *)
-        destruct Hmd as [Hmd|H2].
-        + pose proof (field_not_map md k fd Hmd Hf) as Hc. cbn [g_ismap] in Hc. rewrite Hl in Hc. discriminate.
-        + destruct v as [| | | | |ms]; try discriminate.
-          destruct (den_entries true S rec kk (fd_type fd) ms) as [kvs| |] eqn:He; cbn [res_bind] in Hd; try discriminate.
-          destruct kvs as [|kv0 kvs0]; [discriminate|]. cbn [andb] in Hd.
-          destruct (forallb (fun kx => plen (wenc (key_field (fst kx) :: wfld 2 (snd kx))) <? 2 ^ 31) (kv0 :: kvs0)) eqn:Hsz;
-            cbn [negb] in Hd; [|discriminate].
-          inversion Hd; subst ov.
-          assert (Hne : kv0 :: kvs0 <> []) by discriminate.
-          exact (map_field_ok fd kk ms (kv0 :: kvs0) top stk buf H2 Hl Hn He Hne Hsz Hdep).
+        assert (Hil : g_islist (GField fd) = Some false) by (cbn; rewrite Hl; reflexivity).
+        assert (Him : g_ismap (GField fd) = Some true) by (cbn; rewrite Hl; reflexivity).
+        assert (Hz : GField fd <> GZero) by discriminate.
+        destruct v as [| b | l | s0 | xs | ms]; try discriminate Hnull.
+        1-3: cbn [result events]; rewrite run_one, step_scalar by (auto; reflexivity);
+             apply scalar_rejected; auto.
+        + cbn [result events]. rewrite run_cons. unfold step. cbn [m_skipd]. unfold on_arr_begin. cbn [m_inskip m_glob].
+          rewrite Hil. reflexivity.
+        + (* object *)
+          assert (Hk : g_kind (GField fd) = K_MESSAGE) by (cbn; rewrite Hl; reflexivity).
+          cbn [events]. rewrite run_cons. unfold step at 1. cbn [m_skipd]. unfold on_obj_begin.
+          cbn [m_inskip m_glob]. rewrite Him, Hil, Hk. cbn [Z.eqb K_MESSAGE Pos.eqb negb orb].
+          assert (Hlen : (length (top :: stk) < STK_DEPTH)%nat) by (destruct ms; unfold STK_DEPTH in *; lia).
+          rewrite push_ok by exact Hlen.
+          unfold set_stk, set_glob. cbn [m_stk m_buf m_glob m_inskip m_skipd].
+          rewrite run_app.
+          change (flat_map (fun m : list Z * json => EvKey (fst m) :: events (snd m)) ms) with (flat_map member_events ms).
+          set (mapfr := mk_frame T_MAP None (Some (GField fd)) (-1)).
+          assert (Hdc : Forall (fun m => (length (mapfr :: top :: stk) + 1 + need_single S recn (fd_type fd) (snd m) <= STK_DEPTH)%nat) ms).
+          { destruct ms as [|m0 ms0]; [constructor|].
+            assert (Hd' : (Datatypes.S (Datatypes.S (length (top :: stk))) + fold_right (fun x m => Nat.max (need_single S recn (fd_type fd) (snd x)) m) O (m0 :: ms0) <= STK_DEPTH)%nat) by lia.
+            pose proof (Forall_max (fun m : list Z * json => need_single S recn (fd_type fd) (snd m)) (m0 :: ms0) STK_DEPTH _ Hd') as Hf.
+            eapply Forall_impl; [|exact Hf]. cbn beta. intros a Ha. cbn [length] in *. lia. }
+          pose proof (entries_ok fd kk (top :: stk) Hl Hn ms buf Hdc) as He. cbn zeta in He. fold mapfr in He.
+          destruct (den_entries true S rec kk (fd_type fd) ms) as [kvs| |]; cbn [res_bind result] in *; [|rewrite He; reflexivity|exact I].
+          assert (Hend : run [EvObjEnd] (mk_st (mapfr :: top :: stk) None false O (buf ++ wenc (wfld (fd_num fd) (VMap kvs))))
+                         = MOk (mk_st (top :: stk) None false O (buf ++ wenc (wfld (fd_num fd) (VMap kvs))))).
+          { rewrite run_one. unfold step. cbn [m_skipd]. unfold on_obj_end. cbn [m_inskip top_of m_stk hd].
+            unfold mapfr at 1. cbn [fr_pos Z.eqb Pos.eqb]. unfold on_value_end. cbn [m_stk m_glob].
+            unfold mapfr at 1. cbn [fr_typ Z.eqb T_OBJ T_ARR T_MAP Pos.eqb orb]. reflexivity. }
+          destruct kvs as [|kv0 kvs0]; cbn [result]; rewrite He, Hend; [|reflexivity].
+          cbn [wfld map]. unfold wenc. cbn [flat_map]. reflexivity.
     Qed.
 
     Lemma on_key_obj top md key stk glob buf :
@@ -682,205 +635,262 @@ Section Refine.
     Lemma encode_msg_cons n pv fs : encode_msg ((n, pv) :: fs) = wenc (wfld n pv) ++ encode_msg fs.
     Proof. unfold encode_msg, msg_wire. cbn [flat_map fst snd]. apply wenc_app. Qed.
 
-    (* one nesting level of the denotation is refined, given the next smaller level *)
-    Lemma members_level : members_spec (den_members true disallow S rec).
+    (* one nesting level of the denotation is refined (success and error), given the next smaller level *)
+    Lemma members_level : members_spec (den_members true disallow S rec) (need_members S recn).
     Proof.
-      unfold members_spec. intros md ms. induction ms as [|[k v] r IH]; intros fs top stk glob buf Hd Hmd Hof Hdep.
-      - cbn in Hd. inversion Hd; subst fs. cbn. rewrite app_nil_r. reflexivity.
-      - cbn [den_members] in Hd. inversion Hdep as [|? ? Hdv Hdr]; subst. cbn [snd] in Hdv.
+      unfold members_spec. intros md ms. induction ms as [|[k v] r IH]; intros top stk buf Hof Hdep.
+      - cbn. rewrite app_nil_r. reflexivity.
+      - cbn [den_members need_members fold_right fst snd] in *.
         change (flat_map member_events ((k, v) :: r)) with ((EvKey k :: events v) ++ flat_map member_events r).
         rewrite <- app_comm_cons, run_cons.
-        rewrite (on_key_obj top md k stk glob buf Hof). unfold lookup_member.
-        cbn [has_known existsb fst].
+        rewrite (on_key_obj top md k stk None buf Hof). unfold lookup_member.
+        assert (Hto : fr_typ top = T_OBJ) by (destruct Hof; assumption).
         destruct (find_field_name md k) as [fd|] eqn:Hf.
-        + (* known member *)
-          destruct (json_is_null v) eqn:Hnull; [discriminate|].
-          destruct ((1 <=? fd_num fd) && (fd_num fd <=? MAX_FIELD_NUMBER)) eqn:Hn; cbn [andb negb] in Hd; [|discriminate].
-          destruct (den_field true S rec fd v) as [ov| |] eqn:Hfv; cbn [res_bind] in Hd; try discriminate.
-          destruct (den_members true disallow S rec md r) as [fs'| |] eqn:Hr; cbn [res_bind] in Hd; try discriminate.
-          inversion Hd; subst fs. clear Hd.
-          unfold set_glob. cbn [m_stk m_glob m_buf m_inskip m_skipd]. rewrite run_app.
-          destruct Hof as [Hto Hroot].
-          rewrite (field_ok md k fd v ov top stk buf Hmd Hf Hn Hfv Hto Hdv).
-          rewrite (IH fs' top stk None _ eq_refl Hmd (conj Hto Hroot) Hdr).
-          cbn [orb]. f_equal. f_equal.
-          * destruct (has_known md r); reflexivity.
-          * rewrite <- app_assoc. f_equal. destruct ov; [rewrite encode_msg_cons|]; reflexivity.
-        + (* unknown member: skipped *)
-          destruct disallow eqn:Hdis; [discriminate|].
+        + unfold set_glob. cbn [m_stk m_glob m_buf m_inskip m_skipd].
+          assert (Hdr : (length (top :: stk) + need_members S recn md r <= STK_DEPTH)%nat) by (unfold need_members; lia).
+          destruct (json_is_null v) eqn:Hnull.
+          * (* null member: absent *)
+            destruct v; try discriminate Hnull. cbn [events app]. rewrite run_cons. unfold step at 1. cbn [m_skipd].
+            unfold on_null. cbn [m_inskip m_glob]. rewrite ove_some. unfold close. rewrite Hto. cbn [Z.eqb T_OBJ T_MAP Pos.eqb].
+            apply (IH top stk buf Hof Hdr).
+          * destruct ((1 <=? fd_num fd) && (fd_num fd <=? MAX_FIELD_NUMBER)) eqn:Hn; cbn [andb negb]; [|exact I].
+            rewrite run_app.
+            assert (Hdv : (length (top :: stk) + need_field S recn fd v <= STK_DEPTH)%nat) by lia.
+            pose proof (field_ok fd v top stk buf Hn Hnull Hto Hdv) as Hfv.
+            destruct (den_field true S rec fd v) as [ov| |]; cbn [res_bind result] in *; [|rewrite Hfv; reflexivity|exact I].
+            rewrite Hfv.
+            specialize (IH top stk (buf ++ match ov with Some pv => wenc (wfld (fd_num fd) pv) | None => [] end) Hof Hdr).
+            destruct (den_members true disallow S rec md r) as [fs'| |]; cbn [res_bind result] in *; [|exact IH|exact I].
+            rewrite IH. f_equal. f_equal. rewrite <- app_assoc. f_equal.
+            destruct ov; [rewrite encode_msg_cons|]; reflexivity.
+        + assert (Hdr : (length (top :: stk) + need_members S recn md r <= STK_DEPTH)%nat) by (unfold need_members; lia).
+          destruct disallow eqn:Hdis; [reflexivity|].
           unfold set_inskip. cbn [m_stk m_glob m_buf m_inskip m_skipd]. rewrite run_app.
-          rewrite skip_value. cbn [orb].
-          apply (IH fs top stk glob buf Hd Hmd Hof Hdr).
+          rewrite skip_value. apply (IH top stk buf Hof Hdr).
     Qed.
   End Level.
 
-  Lemma members_all f : members_spec (denote_members true disallow S f).
+  Lemma members_all f : members_spec (denote_members true disallow S f) (need S f).
   Proof.
     induction f as [|f IH].
-    - unfold members_spec. intros. discriminate.
-    - exact (members_level (denote_members true disallow S f) IH).
+    - unfold members_spec. intros. exact I.
+    - exact (members_level (denote_members true disallow S f) (need S f) IH).
   Qed.
 
   (* the whole document *)
-  Lemma sax_run_ok root md ms fs :
+  Lemma sax_run_result root md ms :
     find_msg S root = Some md ->
-    denote_members true disallow S (json_depth (JObj ms)) md ms = ROk fs ->
-    (dw * json_depth (JObj ms) <= DEPTH)%nat ->
-    sax_run disallow S root junk (events (JObj ms)) = OOk (encode_msg fs).
+    (Datatypes.S (need S (json_depth (JObj ms)) md ms) <= STK_DEPTH)%nat ->
+    match denote_members true disallow S (json_depth (JObj ms)) md ms with
+    | ROk fs => sax_run disallow S root junk (events (JObj ms)) = OOk (encode_msg fs)
+    | RErr => sax_run disallow S root junk (events (JObj ms)) = OErr
+    | RUndef => True
+    end.
   Proof.
-    intros Hf Hd Hdep. unfold sax_run. rewrite Hf. cbn [events]. rewrite run_cons.
-    unfold step at 1, init_state. cbn [m_skipd]. unfold on_obj_begin. cbn [m_inskip m_glob top_of m_stk hd fr_typ].
-    cbn [Z.eqb T_OBJ T_ARR Pos.eqb]. rewrite run_app.
+    intros Hf Hdep. unfold sax_run. rewrite Hf. cbn [events]. rewrite run_cons.
+    assert (Hbeg : step disallow S junk EvObjBegin (init_state md) = MOk (init_state md)) by reflexivity.
+    rewrite Hbeg. unfold init_state. rewrite run_app.
     change (flat_map (fun m : list Z * json => EvKey (fst m) :: events (snd m)) ms) with (flat_map member_events ms).
     set (top := mk_frame T_OBJ (Some md) None (-1)).
     assert (Hof : obj_frame top md) by (split; [reflexivity | left; reflexivity]).
-    assert (Hdc : Forall (fun m => (length (top :: []) + dw * json_depth (snd m) <= DEPTH)%nat) ms).
-    { cbn [json_depth] in Hdep. apply (depth_children (fun m : list Z * json => snd m) ms O 1 Hdw). exact Hdep. }
-    rewrite (members_all _ md ms fs top [] None [] Hd (md_ok_or _ _ Hf) Hof Hdc).
-    cbn [J2P.run]. unfold step. cbn [m_skipd]. unfold on_obj_end. cbn [m_inskip top_of m_stk hd].
-    unfold top at 1. cbn [fr_pos Z.eqb Pos.eqb]. unfold on_value_end. cbn [m_stk m_glob].
-    destruct (has_known md ms); cbn [m_stk length Nat.eqb m_buf app]; reflexivity.
+    assert (Hd : (length (top :: []) + need S (json_depth (JObj ms)) md ms <= STK_DEPTH)%nat) by (cbn [length]; lia).
+    pose proof (members_all _ md ms top [] [] Hof Hd) as Hm.
+    destruct (denote_members true disallow S (json_depth (JObj ms)) md ms) as [fs| |]; cbn [result] in Hm; [| |exact I].
+    - rewrite Hm, run_one. unfold step. cbn [m_skipd]. unfold on_obj_end. cbn [m_inskip top_of m_stk hd].
+      unfold top at 1. cbn [fr_pos Z.eqb Pos.eqb]. unfold on_value_end. cbn [m_stk m_glob length Nat.eqb m_buf app]. reflexivity.
+    - rewrite Hm. reflexivity.
+  Qed.
+
+  (* a document that is not an object *)
+  Lemma sax_run_nonobj root md j :
+    find_msg S root = Some md -> (match j with JObj _ => False | _ => True end) ->
+    sax_run disallow S root junk (events j) = OErr.
+  Proof.
+    intros Hf Hj. unfold sax_run. rewrite Hf. destruct j; try contradiction; reflexivity.
   Qed.
 End Refine.
 
-Lemma nomap_md_ok S : nomap_schema S = true -> forall name md, find_msg S name = Some md -> md_ok md.
-Proof.
-  intros H name md Hf. unfold find_msg in Hf. apply find_some in Hf. destruct Hf as [Hin _].
-  unfold nomap_schema in H. rewrite forallb_forall in H. exact (H _ Hin).
-Qed.
-
-(* REFINEMENT.  For every document of the strict domain — it denotes a message, has no null member, no empty
-   container, no leaf / map key on which the converter's conversion differs (all decidable, evaluated per case by the
-   checker) — nested at most to the converter's stack limit, the SAX machine as coded yields exactly the canonical
-   encoding of the denoted message: every tag, every packed run, every map pair and every length prefix at every
-   depth, for every size (finish_spec_correct inside the induction over the JSON AST), for every content of the
-   spare capacity seen by FinishSpeculativeLength.
-   The stack limit: 256 frames; a nesting level costs one frame (message, list) or two (map: map frame + pair frame),
-   hence JSON depth <= 128 in general and <= 256 for schemas without map fields. *)
-Theorem sax_refines_spec disallow S root ms m junk :
+(* REFINEMENT.  For every document of the strict domain that needs at most the 256 frames of the visitor's stack the
+   SAX machine (conv/j2p/decode.go as it stands) yields exactly the canonical encoding of the denoted message: every
+   tag, packed run, map pair and length prefix at every depth, for every size, for every content of the spare capacity
+   seen by FinishSpeculativeLength.  [frames_needed] is exact (one frame for the root, one per message / array, two
+   per map level): the bound is the code's real limit, not an artefact of the proof. *)
+Theorem sax_refines_spec disallow S root j m junk :
   (9 <= length junk)%nat ->
-  denote_top true disallow S root (JObj ms) = ROk m ->
-  (json_depth (JObj ms) <= 128)%nat ->
-  sax_run disallow S root junk (events (JObj ms)) = OOk (encode_msg m).
+  denote_top true disallow S root j = ROk m ->
+  (frames_needed S root j <= 256)%nat ->
+  sax_run disallow S root junk (events j) = OOk (encode_msg m).
 Proof.
-  intros Hj Hd Hdep. unfold denote_top in Hd.
-  destruct (find_msg S root) as [md|] eqn:Hf; [|discriminate].
-  destruct (denote_members true disallow S (json_depth (JObj ms)) md ms) as [fs| |] eqn:Hm; cbn [res_bind] in Hd; try discriminate.
-  destruct (wf_msg S root fs); [|discriminate]. inversion Hd; subst m.
-  assert (H2 : (1 <= 2)%nat) by lia.
-  assert (Hmd : (forall name md, find_msg S name = Some md -> md_ok md) \/ (2 <= 2)%nat) by (right; lia).
-  refine (sax_run_ok disallow S junk Hj 2%nat H2 Hmd root md ms fs Hf Hm _).
-  unfold DEPTH. lia.
+  intros Hj Hd Hdep. unfold denote_top, frames_needed in *.
+  destruct (find_msg S root) as [md|] eqn:Hf; [|discriminate]. destruct j; try discriminate.
+  pose proof (sax_run_result disallow S junk Hj root md ms Hf Hdep) as H.
+  destruct (denote_members true disallow S (json_depth (JObj ms)) md ms) as [fs| |]; cbn [res_bind] in Hd; try discriminate.
+  destruct (wf_msg S root fs); [|discriminate]. inversion Hd; subst m. exact H.
 Qed.
 
-Theorem sax_refines_spec_nomap disallow S root ms m junk :
-  nomap_schema S = true -> (9 <= length junk)%nat ->
-  denote_top true disallow S root (JObj ms) = ROk m ->
-  (json_depth (JObj ms) <= 256)%nat ->
-  sax_run disallow S root junk (events (JObj ms)) = OOk (encode_msg m).
+(* ERROR SIDE.  Where the strict denotation is an error — a member / element / map value whose JSON kind contradicts the
+   field, an unknown member under DisallowUnknownField, a document that is not an object, at any depth, after any
+   correct prefix — the machine fails too. *)
+Theorem sax_error_sound disallow S root j junk :
+  (9 <= length junk)%nat ->
+  denote_top true disallow S root j = RErr ->
+  (frames_needed S root j <= 256)%nat ->
+  sax_run disallow S root junk (events j) = OErr.
 Proof.
-  intros Hnm Hj Hd Hdep. unfold denote_top in Hd.
+  intros Hj Hd Hdep. unfold denote_top, frames_needed in *.
   destruct (find_msg S root) as [md|] eqn:Hf; [|discriminate].
-  destruct (denote_members true disallow S (json_depth (JObj ms)) md ms) as [fs| |] eqn:Hm; cbn [res_bind] in Hd; try discriminate.
-  destruct (wf_msg S root fs); [|discriminate]. inversion Hd; subst m.
-  assert (H1 : (1 <= 1)%nat) by lia.
-  refine (sax_run_ok disallow S junk Hj 1%nat H1 (or_introl (nomap_md_ok S Hnm)) root md ms fs Hf Hm _).
-  unfold DEPTH. lia.
+  destruct j; try (apply (sax_run_nonobj disallow S junk root md _ Hf); exact I).
+  pose proof (sax_run_result disallow S junk Hj root md ms Hf Hdep) as H.
+  destruct (denote_members true disallow S (json_depth (JObj ms)) md ms) as [fs| |]; cbn [res_bind] in Hd; try discriminate.
+  - destruct (wf_msg S root fs); discriminate.
+  - exact H.
 Qed.
 
-(* ------------------------------------------------------------------ the strict domain is inside the property's domain *)
+(* ------------------------------------------------------------------ strict vs. property domain: wherever the strict denotation
+   is defined (ROk or RErr) the property's denotation is the same *)
+Definition rr {A} (a b : res A) : Prop := a = RUndef \/ a = b.
+
+Lemma rr_bind {A B} (a b : res A) (f g : A -> res B) :
+  rr a b -> (forall x, rr (f x) (g x)) -> rr (res_bind a f) (res_bind b g).
+Proof.
+  intros [H|H] Hf; subst; [left; reflexivity|]. destruct b; cbn [res_bind]; [apply Hf | right; reflexivity | left; reflexivity].
+Qed.
+Lemma rr_refl {A} (a : res A) : rr a a.  Proof. right; reflexivity. Qed.
+Lemma rr_undef {A} (b : res A) : rr RUndef b.  Proof. left; reflexivity. Qed.
+Lemma rr_if {A} (c : bool) (x b : res A) : rr x b -> rr (if c then RUndef else x) b.
+Proof. destruct c; [intros; apply rr_undef | auto]. Qed.
+
 Section StrictLax.
   Variable d : bool.
   Variable S : schema.
 
-  Lemma scalar_sl k v pv : denote_scalar true k v = ROk pv -> denote_scalar false k v = ROk pv.
+  Lemma scalar_rr k v : rr (denote_scalar true k v) (denote_scalar false k v).
   Proof.
-    unfold denote_scalar. destruct (ev_of v) as [e|]; [|auto].
-    destruct (denote_leaf k v) as [l| |]; cbn [res_bind]; auto.
-    destruct (leaf_agrees true k e l); [|discriminate]. unfold leaf_agrees. cbn [negb orb]. auto.
+    unfold denote_scalar. destruct (ev_of v) as [e|]; [|apply rr_refl].
+    apply rr_bind; [apply rr_refl|]. intro l. unfold leaf_agrees at 2. cbn [negb orb].
+    destruct (leaf_agrees true k e l); [apply rr_refl | apply rr_undef].
   Qed.
 
-  Lemma key_sl kk s key : denote_key true kk s = ROk key -> denote_key false kk s = ROk key.
+  Lemma key_rr kk s : rr (denote_key true kk s) (denote_key false kk s).
   Proof.
-    unfold denote_key. destruct (denote_key0 kk s) as [k0| |]; cbn [res_bind]; auto.
-    destruct (key_agrees true kk s k0); [|discriminate]. unfold key_agrees. cbn [negb orb]. auto.
+    unfold denote_key. apply rr_bind; [apply rr_refl|]. intro key. unfold key_agrees at 2. cbn [negb orb].
+    destruct (key_agrees true kk s key); [apply rr_refl | apply rr_undef].
   Qed.
 
   Section Level.
     Variables rt rf : mdesc -> list (list Z * json) -> res pmsg.
-    Hypothesis Hr : forall md ms fs, rt md ms = ROk fs -> rf md ms = ROk fs.
+    Hypothesis Hr : forall md ms, rr (rt md ms) (rf md ms).
 
-    Lemma single_sl t v pv : den_single true S rt t v = ROk pv -> den_single false S rf t v = ROk pv.
+    Lemma single_rr t v : rr (den_single true S rt t v) (den_single false S rf t v).
     Proof.
-      unfold den_single. destruct t as [k|name]; [apply scalar_sl|].
-      destruct v; auto. destruct (find_msg S name) as [md|]; [|auto].
-      cbn [andb]. destruct (has_known md ms); cbn [negb]; [|discriminate].
-      destruct (rt md ms) as [fs| |] eqn:E; cbn [res_bind]; try discriminate.
-      rewrite (Hr _ _ _ E). cbn [res_bind]. destruct (plen (encode_msg fs) <? 2 ^ 31); cbn [negb]; [auto|discriminate].
+      unfold den_single. destruct t as [k|name].
+      - cbn [andb]. apply rr_if, scalar_rr.
+      - destruct v; try apply rr_refl. destruct (find_msg S name) as [md|]; [|apply rr_refl].
+        apply rr_bind; [apply Hr|]. intro fs. cbn [andb]. apply rr_if, rr_refl.
     Qed.
 
-    Lemma elems_sl t xs vs : den_elems true S rt t xs = ROk vs -> den_elems false S rf t xs = ROk vs.
+    Lemma elems_rr t xs : rr (den_elems true S rt t xs) (den_elems false S rf t xs).
     Proof.
-      revert vs. induction xs as [|x xs IH]; intros vs; cbn [den_elems]; [auto|].
-      destruct (den_single true S rt t x) as [v| |] eqn:E; cbn [res_bind]; try discriminate.
-      rewrite (single_sl _ _ _ E). cbn [res_bind].
-      destruct (den_elems true S rt t xs) as [vs'| |]; cbn [res_bind]; try discriminate.
-      rewrite (IH _ eq_refl). cbn [res_bind]. auto.
+      induction xs as [|x xs IH]; cbn [den_elems]; [apply rr_refl|].
+      apply rr_bind; [apply single_rr|]. intro v. apply rr_bind; [exact IH|]. intro vs. apply rr_refl.
     Qed.
 
-    Lemma entries_sl kk t ms kvs : den_entries true S rt kk t ms = ROk kvs -> den_entries false S rf kk t ms = ROk kvs.
+    Lemma entries_rr kk t ms : rr (den_entries true S rt kk t ms) (den_entries false S rf kk t ms).
     Proof.
-      revert kvs. induction ms as [|[k x] ms IH]; intros kvs; cbn [den_entries]; [auto|].
-      destruct (denote_key true kk k) as [key| |] eqn:Ek; cbn [res_bind]; try discriminate.
-      rewrite (key_sl _ _ _ Ek). cbn [res_bind].
-      destruct (den_single true S rt t x) as [v| |] eqn:E; cbn [res_bind]; try discriminate.
-      rewrite (single_sl _ _ _ E). cbn [res_bind].
-      destruct (den_entries true S rt kk t ms) as [r| |]; cbn [res_bind]; try discriminate.
-      rewrite (IH _ eq_refl). cbn [res_bind]. auto.
+      induction ms as [|[k x] ms IH]; cbn [den_entries]; [apply rr_refl|].
+      apply rr_bind; [apply key_rr|]. intro key. apply rr_bind; [apply single_rr|]. intro v. cbn [andb].
+      apply rr_if. apply rr_bind; [exact IH|]. intro kvs. apply rr_refl.
     Qed.
 
-    Lemma field_sl fd v ov : den_field true S rt fd v = ROk ov -> den_field false S rf fd v = ROk ov.
+    Lemma field_rr fd v : rr (den_field true S rt fd v) (den_field false S rf fd v).
     Proof.
       unfold den_field. destruct (fd_label fd) as [|p|kk].
-      - destruct (den_single true S rt (fd_type fd) v) as [pv| |] eqn:E; cbn [res_bind]; try discriminate.
-        rewrite (single_sl _ _ _ E). auto.
-      - destruct v; auto.
-        destruct (den_elems true S rt (fd_type fd) xs) as [vs| |] eqn:E; cbn [res_bind]; try discriminate.
-        rewrite (elems_sl _ _ _ E). cbn [res_bind andb]. destruct vs; [discriminate|].
-        destruct (type_numeric (fd_type fd) && negb (plen (flat_map packed_elem (p0 :: vs)) <? 2 ^ 31)); [discriminate|auto].
-      - destruct v; auto.
-        destruct (den_entries true S rt kk (fd_type fd) ms) as [kvs| |] eqn:E; cbn [res_bind]; try discriminate.
-        rewrite (entries_sl _ _ _ _ E). cbn [res_bind andb]. destruct kvs; [discriminate|].
-        match goal with |- (if negb ?c then _ else _) = _ -> _ => destruct c end; cbn [negb]; [auto|discriminate].
+      - apply rr_bind; [apply single_rr|]. intro pv. apply rr_refl.
+      - destruct v; try apply rr_refl. cbn zeta. cbn [andb]. apply rr_if.
+        apply rr_bind; [apply elems_rr|]. intro vs. cbn [andb].
+        destruct vs; [apply rr_if, rr_refl|]. cbn [andb]. apply rr_if, rr_refl.
+      - destruct v; try apply rr_refl. apply rr_bind; [apply entries_rr|]. intro kvs. apply rr_refl.
     Qed.
 
-    Lemma members_sl md ms fs : den_members true d S rt md ms = ROk fs -> den_members false d S rf md ms = ROk fs.
+    Lemma members_rr md ms : rr (den_members true d S rt md ms) (den_members false d S rf md ms).
     Proof.
-      revert fs. induction ms as [|[k v] r IH]; intros fs; cbn [den_members]; [auto|].
-      destruct (find_field_name md k) as [fd|]; [|destruct d; auto].
-      destruct (json_is_null v); [discriminate|]. cbn [andb].
-      destruct (negb ((1 <=? fd_num fd) && (fd_num fd <=? MAX_FIELD_NUMBER))); [discriminate|].
-      destruct (den_field true S rt fd v) as [ov| |] eqn:E; cbn [res_bind]; try discriminate.
-      rewrite (field_sl _ _ _ E). cbn [res_bind].
-      destruct (den_members true d S rt md r) as [fs'| |]; cbn [res_bind]; try discriminate.
-      rewrite (IH _ eq_refl). auto.
+      induction ms as [|[k v] r IH]; cbn [den_members]; [apply rr_refl|].
+      destruct (find_field_name md k) as [fd|]; [|destruct d; [apply rr_refl | exact IH]].
+      destruct (json_is_null v); [exact IH|]. cbn [andb]. apply rr_if.
+      apply rr_bind; [apply field_rr|]. intro ov. apply rr_bind; [exact IH|]. intro fs. apply rr_refl.
     Qed.
   End Level.
 
-  Lemma denote_members_sl f : forall md ms fs,
-    denote_members true d S f md ms = ROk fs -> denote_members false d S f md ms = ROk fs.
+  Lemma denote_members_rr f : forall md ms, rr (denote_members true d S f md ms) (denote_members false d S f md ms).
+  Proof. induction f as [|f IH]; intros md ms; cbn [denote_members]; [apply rr_refl|]. apply members_rr. exact IH. Qed.
+
+  Lemma denote_top_rr root j : rr (denote_top true d S root j) (pdenote d S root j).
   Proof.
-    induction f as [|f IH]; intros md ms fs; cbn [denote_members]; [discriminate|].
-    apply members_sl. exact IH.
+    unfold pdenote, denote_top. destruct (find_msg S root) as [md|]; [|apply rr_refl]. destruct j; try apply rr_refl.
+    apply rr_bind; [apply denote_members_rr|]. intro fs. apply rr_refl.
   Qed.
 
   Theorem strict_in_domain root j m : denote_top true d S root j = ROk m -> pdenote d S root j = ROk m.
-  Proof.
-    unfold pdenote, denote_top. destruct (find_msg S root) as [md|]; [|auto]. destruct j; auto.
-    destruct (denote_members true d S (json_depth (JObj ms)) md ms) as [fs| |] eqn:E; cbn [res_bind]; try discriminate.
-    rewrite (denote_members_sl _ _ _ _ E). auto.
-  Qed.
+  Proof. intro H. destruct (denote_top_rr root j) as [E|E]; congruence. Qed.
+  Theorem strict_error_in_domain root j : denote_top true d S root j = RErr -> pdenote d S root j = RErr.
+  Proof. intro H. destruct (denote_top_rr root j) as [E|E]; congruence. Qed.
 End StrictLax.
+
+(* ERROR <-> : on the strict domain (defined denotation, within the stack) the machine fails exactly when the
+   property's denotation is an error, and succeeds — with the specified bytes — exactly when it is a message *)
+Theorem sax_error_iff d S root j junk :
+  (9 <= length junk)%nat -> denote_top true d S root j <> RUndef -> (frames_needed S root j <= 256)%nat ->
+  (sax_run d S root junk (events j) = OErr <-> pdenote d S root j = RErr) /\
+  (forall m, pdenote d S root j = ROk m -> sax_run d S root junk (events j) = OOk (encode_msg m)).
+Proof.
+  intros Hj Hdef Hdep. destruct (denote_top true d S root j) as [m| |] eqn:Hd; [| |congruence].
+  - pose proof (strict_in_domain d S root j m Hd) as Hp. pose proof (sax_refines_spec d S root j m junk Hj Hd Hdep) as Hs.
+    split; [split; intro H; congruence|]. intros m' Hm'. congruence.
+  - pose proof (strict_error_in_domain d S root j Hd) as Hp. pose proof (sax_error_sound d S root j junk Hj Hd Hdep) as Hs.
+    split; [split; auto|]. intros m' Hm'. congruence.
+Qed.
+
+(* the stack bound in terms of the JSON nesting depth alone: a level costs at most two frames *)
+Section NeedDepth.
+  Variable S : schema.
+  Lemma fold_max_le {A} (f : A -> nat) (l : list A) (b : nat) : (forall x, In x l -> (f x <= b)%nat) ->
+    (fold_right (fun x m => Nat.max (f x) m) O l <= b)%nat.
+  Proof. induction l as [|x l IH]; intro H; cbn [fold_right]; [lia|]. pose proof (H x (or_introl eq_refl)). assert (forall y, In y l -> (f y <= b)%nat) by (intros; apply H; right; assumption). specialize (IH H1). lia. Qed.
+
+  Lemma need_depth f : forall md ms, (need S f md ms <= 2 * fold_right (fun x m => Nat.max (json_depth (snd x)) m) O ms)%nat.
+  Proof.
+    induction f as [|f IH]; intros md ms; cbn [need]; [lia|].
+    unfold need_members. apply fold_max_le. intros [k v] Hin. cbn [fst snd].
+    pose proof (fold_max_ge (fun y : list Z * json => json_depth (snd y)) ms (k, v) Hin) as Hv. cbn [snd] in Hv.
+    assert (Hs : forall t x, (need_single S (need S f) t x <= 2 * json_depth x)%nat).
+    { intros t x. unfold need_single. destruct t; [lia|]. destruct x; try lia. destruct (find_msg S name); [|lia].
+      specialize (IH m ms0). cbn [json_depth]. lia. }
+    destruct (find_field_name md k) as [fd|]; [|lia]. unfold need_field.
+    destruct (fd_label fd).
+    - specialize (Hs (fd_type fd) v). lia.
+    - destruct v; try lia. cbn [json_depth] in Hv.
+      assert (H1 : (fold_right (fun x m => Nat.max (need_single S (need S f) (fd_type fd) x) m) O xs
+                    <= 2 * fold_right (fun x m => Nat.max (json_depth x) m) O xs)%nat).
+      { apply fold_max_le. intros x Hx. pose proof (fold_max_ge (fun y : json => json_depth y) xs x Hx). specialize (Hs (fd_type fd) x). lia. }
+      lia.
+    - destruct v; try lia. destruct ms0 as [|m0 ms0]; [cbn [json_depth] in Hv; lia|]. cbn [json_depth] in Hv.
+      assert (H1 : (fold_right (fun x m => Nat.max (need_single S (need S f) (fd_type fd) (snd x)) m) O (m0 :: ms0)
+                    <= 2 * fold_right (fun x m => Nat.max (json_depth (snd x)) m) O (m0 :: ms0))%nat).
+      { apply fold_max_le. intros x Hx. pose proof (fold_max_ge (fun y : list Z * json => json_depth (snd y)) (m0 :: ms0) x Hx). specialize (Hs (fd_type fd) (snd x)). cbn beta in *. lia. }
+      lia.
+  Qed.
+
+  Lemma frames_le_depth root j : (frames_needed S root j <= 2 * json_depth j)%nat.
+  Proof.
+    unfold frames_needed. destruct (find_msg S root); [|destruct j; cbn; lia]. destruct j; try (cbn; lia).
+    pose proof (need_depth (json_depth (JObj ms)) m ms). cbn [json_depth] in *. lia.
+  Qed.
+End NeedDepth.
+
+Corollary sax_refines_spec_depth disallow S root j m junk :
+  (9 <= length junk)%nat -> denote_top true disallow S root j = ROk m -> (json_depth j <= 128)%nat ->
+  sax_run disallow S root junk (events j) = OOk (encode_msg m).
+Proof. intros Hj Hd Hdep. apply sax_refines_spec; auto. pose proof (frames_le_depth S root j). lia. Qed.
 
 (* ------------------------------------------------------------------ consequences at the specification level *)
 (* the specified output is accepted by the proved decoder and decodes to exactly the denoted message *)
@@ -897,17 +907,17 @@ Proof.
 Qed.
 
 (* refinement + domain inclusion + decoding, in one statement *)
-Theorem sax_refines_spec_decodes d S root ms m junk fuel :
+Theorem sax_refines_spec_decodes d S root j m junk fuel :
   (9 <= length junk)%nat ->
-  denote_top true d S root (JObj ms) = ROk m ->
-  (json_depth (JObj ms) <= 128)%nat -> (depth (VMsg m) <= fuel)%nat ->
-  exists b, sax_run d S root junk (events (JObj ms)) = OOk b /\
-            j2p_spec d S root (JObj ms) = ROk b /\ decode_msg S fuel root b = Some m.
+  denote_top true d S root j = ROk m ->
+  (frames_needed S root j <= 256)%nat -> (depth (VMsg m) <= fuel)%nat ->
+  exists b, sax_run d S root junk (events j) = OOk b /\
+            j2p_spec d S root j = ROk b /\ decode_msg S fuel root b = Some m.
 Proof.
   intros Hj Hd Hdep Hf. exists (encode_msg m).
-  pose proof (strict_in_domain d S root (JObj ms) m Hd) as Hp.
-  destruct (j2p_output_decodes d S root (JObj ms) m fuel Hp Hf) as [H1 H2].
-  split; [exact (sax_refines_spec d S root ms m junk Hj Hd Hdep)|]. split; assumption.
+  pose proof (strict_in_domain d S root j m Hd) as Hp.
+  destruct (j2p_output_decodes d S root j m fuel Hp Hf) as [H1 H2].
+  split; [exact (sax_refines_spec d S root j m junk Hj Hd Hdep)|]. split; assumption.
 Qed.
 
 (* kind mismatch: a value whose JSON kind contradicts the field makes the denotation an error, wherever it occurs
@@ -957,7 +967,9 @@ Proof.
   assert (Hfld : den_field strict S rec fd v = RErr).
   { unfold den_field, expected_kind in *. destruct (fd_label fd).
     - unfold den_single. destruct (fd_type fd) as [kd|name].
-      + rewrite denote_scalar_mismatch; auto.
+      + assert (H11 : (kd =? K_MESSAGE) = false)
+          by (apply known_kind_cases in Hk; cbn [In] in Hk; repeat (destruct Hk as [Hk|Hk]; [subst kd; reflexivity|]); contradiction).
+        rewrite H11, andb_false_r. rewrite denote_scalar_mismatch; auto.
       + destruct v; cbn in *; congruence.
     - destruct v; cbn in *; congruence.
     - destruct v; cbn in *; congruence. }
@@ -1015,7 +1027,11 @@ Theorem int_leaf_agrees k lex z :
 Proof.
   intros Hk Hp Hz Ho H64. unfold leaf_agrees. cbn [negb orb scalar_payload is_str_ev].
   unfold num_class. rewrite Hp, Hz, H64, Hk. rewrite (goconv_id k z Hk Ho).
-  cbn [leaf_bytes leaf_wt]. rewrite bytes_eqb_refl. cbn [andb Bool.eqb].
+  cbn [orb negb leaf_bytes leaf_wt]. rewrite bytes_eqb_refl. cbn [andb Bool.eqb].
   apply int_kind_cases in Hk. cbn [In] in Hk.
   repeat (destruct Hk as [Hk|Hk]; [subst k; reflexivity|]). contradiction.
 Qed.
+
+(* the code's limit: the 256th frame cannot be pushed (sp is a uint8), whatever the frame *)
+Lemma push_full st fr : length (m_stk st) = 256%nat -> push st fr = MErr.
+Proof. intro H. unfold push. rewrite H. reflexivity. Qed.
